@@ -1,763 +1,3 @@
-// GENERATED by harness/gen/zoo.py - build artefact, do not edit
-pub const GEN_HASH: &str = "75e0d3755d516982";
-#[derive(SystemData)] pub struct Z5_0<'a>(Read<'a, D1, PanicHandler>);
-shredh::zoo_case!(c5, 5, 'a, Z5_0<'a>);
-shredh::zoo_case!(c13, 13, 'a, ((Read<'a, D0, PanicHandler>, ), (Read<'a, D2, Hc<D0>>, ), ));
-#[derive(SystemData)] pub struct Z21_0<'a> { pub f0: Read<'a, D1>, }
-shredh::zoo_case!(c21, 21, 'a, Z21_0<'a>);
-shredh::zoo_case!(c29, 29, 'a, (Write<'a, D3>, Option<Write<'a, N0>>, Read<'a, D3, DefaultProvider>, ));
-shredh::zoo_case!(c37, 37, 'a, ((Option<ReadExpect<'a, D0>>, ), Read<'a, D0, Hc<D1>>, ));
-#[derive(SystemData)] pub struct Z45_0<'a>(pub Write<'a, N2, PanicHandler>, pub (), pub Write<'a, D3>);
-shredh::zoo_case!(c45, 45, 'a, Z45_0<'a>);
-#[derive(SystemData)] pub struct Z53_1<'a> { f0: Write<'a, D0, PanicHandler>, }
-#[derive(SystemData)] pub struct Z53_0<'a>(ReadExpect<'a, D0>, Z53_1<'a>);
-shredh::zoo_case!(c53, 53, 'a, Z53_0<'a>);
-#[derive(SystemData)] pub struct Z61_0<'a, T0: Debug + Resource, T1: Debug + Resource> { pub f0: (), pub f1: WriteExpect<'a, T0>, pub f2: Option<ReadExpect<'a, T1>>, }
-shredh::zoo_case!(c61, 61, 'a, Z61_0<'a, N1, D2>);
-#[derive(SystemData)] pub struct Z69_0<'a> { f0: (Read<'a, D2, Hc<D0>>, ), f1: Option<Write<'a, D0>>, }
-shredh::zoo_case!(c69, 69, 'a, Z69_0<'a>);
-shredh::zoo_case!(c77, 77, 'a, Option<WriteExpect<'a, N1>>);
-shredh::zoo_case!(c85, 85, 'a, (PhantomData<u8>, Option<WriteExpect<'a, D2>>, ));
-#[derive(SystemData)] pub struct Z93_0<'a>(pub WriteExpect<'a, N1>);
-shredh::zoo_case!(c93, 93, 'a, (Z93_0<'a>, ));
-#[derive(SystemData)] pub struct Z101_0<'a>(Write<'a, D2>, PhantomData<fn() -> N2>);
-shredh::zoo_case!(c101, 101, 'a, Z101_0<'a>);
-#[derive(SystemData)] pub struct Z109_1<'a> { f0: Write<'a, D1, Hc<D2>>, }
-#[derive(SystemData)] pub struct Z109_0<'a>(Z109_1<'a>);
-shredh::zoo_case!(c109, 109, 'a, Z109_0<'a>);
-#[derive(SystemData)] pub struct Z117_0<'a, U0> where U0: SystemData<'a> { f0: ReadExpect<'a, D2>, f1: U0, }
-shredh::zoo_case!(c117, 117, 'a, Z117_0<'a, Write<'a, D2, Hc<D0>>>);
-#[derive(SystemData)] pub struct Z125_1<'a>(pub Read<'a, D0>);
-#[derive(SystemData)] pub struct Z125_0<'a> { pub f0: Z125_1<'a>, }
-shredh::zoo_case!(c125, 125, 'a, Z125_0<'a>);
-#[derive(SystemData)] pub struct Z133_0<'a, T0: Resource + Default> { f0: Write<'a, T0, DefaultProvider>, }
-shredh::zoo_case!(c133, 133, 'a, ((Option<Read<'a, D0, PanicHandler>>, ), Z133_0<'a, D0>, ));
-shredh::zoo_case!(c141, 141, 'a, (Write<'a, D2>, ));
-#[derive(SystemData)] pub struct Z149_0<'a>((Write<'a, D2, DefaultProvider>, ), (Read<'a, D2, DefaultProvider>, ));
-shredh::zoo_case!(c149, 149, 'a, Z149_0<'a>);
-#[derive(SystemData)] pub struct Z157_0<'a>(pub Option<Read<'a, D2, PanicHandler>>);
-shredh::zoo_case!(c157, 157, 'a, Z157_0<'a>);
-#[derive(SystemData)] pub struct Z165_1<'a, T0: Resource + Default>(pub Read<'a, T0, DefaultProvider>);
-#[derive(SystemData)] pub struct Z165_0<'a> { pub f0: Z165_1<'a, D3>, pub f1: (Write<'a, D3, Hc<D0>>, ), }
-shredh::zoo_case!(c165, 165, 'a, Z165_0<'a>);
-#[derive(SystemData)] pub struct Z173_0<'a> { f0: PhantomData<&'a u8>, }
-shredh::zoo_case!(c173, 173, 'a, Z173_0<'a>);
-shredh::zoo_case!(c181, 181, 'a, (Read<'a, D0>, PhantomData<D0>, Write<'a, D3>, ));
-#[derive(SystemData)] pub struct Z189_0<'a>(Option<Write<'a, D1, PanicHandler>>);
-shredh::zoo_case!(c189, 189, 'a, (Write<'a, D1, Hc<D0>>, Z189_0<'a>, ));
-#[derive(SystemData)] pub struct Z197_0<'a>(pub Option<Read<'a, D2>>, pub Read<'a, D3, PanicHandler>, pub ());
-shredh::zoo_case!(c197, 197, 'a, Z197_0<'a>);
-#[derive(SystemData)] pub struct Z205_1<'a>(pub ReadExpect<'a, D3>);
-#[derive(SystemData)] pub struct Z205_0<'a, U0: SystemData<'a>>(pub Read<'a, D3, Hc<D2>>, pub U0);
-shredh::zoo_case!(c205, 205, 'a, Z205_0<'a, Z205_1<'a>>);
-#[derive(SystemData)] pub struct Z213_0<'a, T0, T1: Resource + ZRes + Default, T2> where T0: Resource + ZRes, T2: Debug + Resource { f0: Option<Read<'a, T0, PanicHandler>>, f1: Write<'a, T1, DefaultProvider>, f2: Option<Write<'a, T2>>, }
-shredh::zoo_case!(c213, 213, 'a, Z213_0<'a, N2, D0, N2>);
-#[derive(SystemData)] pub struct Z221_0<'a, T0: Debug + Resource + for<'b> Hrtb<'b>> { f0: ((), ), f1: Write<'a, T0, Hc<D1>>, }
-shredh::zoo_case!(c221, 221, 'a, Z221_0<'a, D3>);
-shredh::zoo_case!(c229, 229, 'a, PhantomData<&'a u8>);
-shredh::zoo_case!(c237, 237, 'a, (Option<Read<'a, D1>>, Write<'a, D0>, ));
-#[derive(SystemData)] pub struct Z245_0<'a> { f0: PhantomData<&'a u8>, }
-shredh::zoo_case!(c245, 245, 'a, (Z245_0<'a>, ));
-#[derive(SystemData)] pub struct Z253_0<'a>(pub Write<'a, D2>, pub Read<'a, N0, PanicHandler>);
-shredh::zoo_case!(c253, 253, 'a, Z253_0<'a>);
-shredh::zoo_case!(c261, 261, 'a, ((Option<WriteExpect<'a, D1>>, ), ));
-shredh::zoo_case!(c269, 269, 'a, (Option<Write<'a, D3, PanicHandler>>, Option<Read<'a, N1>>, ));
-#[derive(SystemData)] pub struct Z277_1<'a>(Read<'a, N2, PanicHandler>);
-#[derive(SystemData)] pub struct Z277_0<'a> { f0: Z277_1<'a>, }
-shredh::zoo_case!(c277, 277, 'a, Z277_0<'a>);
-#[derive(SystemData)] pub struct Z285_0<'a>(pub Read<'a, D1, Hc<D3>>);
-#[derive(SystemData)] pub struct Z285_1<'a>(Read<'a, D3>);
-shredh::zoo_case!(c285, 285, 'a, (Z285_0<'a>, Z285_1<'a>, ));
-shredh::zoo_case!(c293, 293, 'a, (Write<'a, D1>, ));
-#[derive(SystemData)] pub struct Z301_1<'a>(pub Option<ReadExpect<'a, N1>>);
-#[derive(SystemData)] pub struct Z301_0<'a, U0: SystemData<'a>>(pub (Read<'a, N1, PanicHandler>, ), pub U0);
-shredh::zoo_case!(c301, 301, 'a, Z301_0<'a, Z301_1<'a>>);
-#[derive(SystemData)] pub struct Z309_0<'a>(pub Write<'a, D2>);
-shredh::zoo_case!(c309, 309, 'a, Z309_0<'a>);
-#[derive(SystemData)] pub struct Z317_1<'a> { f0: Write<'a, D3, Hc<D1>>, }
-#[derive(SystemData)] pub struct Z317_0<'a> { f0: (Write<'a, D3, PanicHandler>, ), f1: Z317_1<'a>, }
-shredh::zoo_case!(c317, 317, 'a, Z317_0<'a>);
-#[derive(SystemData)] pub struct Z325_0<'a, T0: Debug + Resource> { pub f0: Option<ReadExpect<'a, T0>>, }
-shredh::zoo_case!(c325, 325, 'a, Z325_0<'a, D0>);
-shredh::zoo_case!(c333, 333, 'a, (Option<Write<'a, N2>>, Option<WriteExpect<'a, D3>>, Option<Read<'a, N2>>, ));
-shredh::zoo_case!(c341, 341, 'a, ((Read<'a, D1, Hc<D3>>, ), Option<ReadExpect<'a, D1>>, ));
-#[derive(SystemData)] pub struct Z349_0<'a>(Write<'a, D1, PanicHandler>, (), Write<'a, N3, PanicHandler>);
-shredh::zoo_case!(c349, 349, 'a, Z349_0<'a>);
-#[derive(SystemData)] pub struct Z357_0<'a>(pub PhantomData<dyn Send>, pub (Option<ReadExpect<'a, D0>>, ));
-shredh::zoo_case!(c357, 357, 'a, Z357_0<'a>);
-#[derive(SystemData)] pub struct Z365_0<'a> { f0: Option<Write<'a, D0, PanicHandler>>, f1: Option<Write<'a, D0, PanicHandler>>, f2: Option<Write<'a, D0, PanicHandler>>, }
-shredh::zoo_case!(c365, 365, 'a, Z365_0<'a>);
-#[derive(SystemData)] pub struct Z373_0<'a> { f0: ((), ), f1: Read<'a, D2>, }
-shredh::zoo_case!(c373, 373, 'a, Z373_0<'a>);
-shredh::zoo_case!(c381, 381, 'a, Option<ReadExpect<'a, N1>>);
-shredh::zoo_case!(c389, 389, 'a, (PhantomData<&'a u8>, PhantomData<(Write<'a, D1>,)>, ));
-shredh::zoo_case!(c397, 397, 'a, ((Option<Read<'a, D3>>, ), ));
-#[derive(SystemData)] pub struct Z405_0<'a, T0>(WriteExpect<'a, T0>, Read<'a, D1>) where T0: Debug + Resource;
-shredh::zoo_case!(c405, 405, 'a, Z405_0<'a, D0>);
-shredh::zoo_case!(c413, 413, 'a, ((Read<'a, D1, DefaultProvider>, ), ));
-#[derive(SystemData)] pub struct Z421_0<'a> { f0: (), f1: PhantomData<&'a u8>, }
-shredh::zoo_case!(c421, 421, 'a, Z421_0<'a>);
-shredh::zoo_case!(c429, 429, 'a, (((), ), ));
-#[derive(SystemData)] pub struct Z437_0<'a>(pub Read<'a, D0, Hc<D2>>);
-#[derive(SystemData)] pub struct Z437_1<'a> { f0: Read<'a, D2, Hc<D0>>, }
-shredh::zoo_case!(c437, 437, 'a, (Z437_0<'a>, Z437_1<'a>, ));
-shredh::zoo_case!(c445, 445, 'a, (Read<'a, D0>, ));
-#[derive(SystemData)] pub struct Z453_0<'a, U0: SystemData<'a>>(pub (Write<'a, D1>, ), pub U0);
-shredh::zoo_case!(c453, 453, 'a, Z453_0<'a, (WriteExpect<'a, D1>, )>);
-#[derive(SystemData)] pub struct Z461_0<'a>(WriteExpect<'a, D3>);
-shredh::zoo_case!(c461, 461, 'a, Z461_0<'a>);
-#[derive(SystemData)] pub struct Z469_1<'a, T0>(Write<'a, T0, Hc<D2>>) where T0: Resource;
-#[derive(SystemData)] pub struct Z469_0<'a> { pub f0: (Read<'a, D0, DefaultProvider>, ), pub f1: Z469_1<'a, D0>, }
-shredh::zoo_case!(c469, 469, 'a, Z469_0<'a>);
-#[derive(SystemData)] pub struct Z477_0<'a, T0: Resource + ZRes + Default> { f0: Write<'a, T0, DefaultProvider>, }
-shredh::zoo_case!(c477, 477, 'a, Z477_0<'a, D1>);
-shredh::zoo_case!(c485, 485, 'a, (Option<WriteExpect<'a, N1>>, Option<Write<'a, N1>>, Write<'a, N1, PanicHandler>, ));
-shredh::zoo_case!(c493, 493, 'a, (Read<'a, D3>, (Write<'a, D3, DefaultProvider>, ), ));
-#[derive(SystemData)] pub struct Z501_0<'a, T0: Resource + Default, U0: SystemData<'a>, T1: Debug + Resource>(pub Read<'a, T0>, pub U0, pub Read<'a, T1>);
-shredh::zoo_case!(c501, 501, 'a, Z501_0<'a, D1, Read<'a, D0, PanicHandler>, D1>);
-#[derive(SystemData)] pub struct Z509_0<'a>((Read<'a, D2, Hc<D0>>, ), Read<'a, D2, DefaultProvider>);
-shredh::zoo_case!(c509, 509, 'a, Z509_0<'a>);
-#[derive(SystemData)] pub struct Z517_0<'a> { f0: ReadExpect<'a, D3>, f1: Read<'a, D2>, f2: WriteExpect<'a, D3>, }
-shredh::zoo_case!(c517, 517, 'a, Z517_0<'a>);
-#[derive(SystemData)] pub struct Z525_1<'a>(Option<Read<'a, D2>>);
-#[derive(SystemData)] pub struct Z525_0<'a, U0: SystemData<'a>> { f0: Z525_1<'a>, f1: U0, }
-shredh::zoo_case!(c525, 525, 'a, Z525_0<'a, ()>);
-shredh::zoo_case!(c533, 533, 'a, Option<WriteExpect<'a, N3>>);
-shredh::zoo_case!(c541, 541, 'a, (Write<'a, D1, Hc<D2>>, PhantomData<str>, ));
-#[derive(SystemData)] pub struct Z549_0<'a, T0>(pub Write<'a, T0, Hc<D0>>) where T0: Resource + ZRes;
-shredh::zoo_case!(c549, 549, 'a, (Z549_0<'a, D1>, ));
-#[derive(SystemData)] pub struct Z557_0<'a, U0: SystemData<'a>, T0: Debug + Resource + for<'b> Hrtb<'b>>(pub U0, pub Option<Write<'a, T0, PanicHandler>>);
-shredh::zoo_case!(c557, 557, 'a, Z557_0<'a, Write<'a, D1, Hc<D3>>, D3>);
-#[derive(SystemData)] pub struct Z565_0<'a>(pub (Write<'a, N3, PanicHandler>, ));
-shredh::zoo_case!(c565, 565, 'a, Z565_0<'a>);
-#[derive(SystemData)] pub struct Z573_0<'a, 'x> { pub f0: Option<Read<'a, N1>>, pub f1: PhantomData<&'x i64>, }
-shredh::zoo_case!(c573, 573, 'a, Z573_0<'a, 'a>);
-shredh::zoo_case!(c581, 581, 'a, ((PhantomData<u8>, ), ));
-shredh::zoo_case!(c589, 589, 'a, ((Write<'a, D3, Hc<D0>>, ), (Read<'a, D3, Hc<D0>>, ), ));
-shredh::zoo_case!(c597, 597, 'a, (Option<Read<'a, N2, PanicHandler>>, ));
-#[derive(SystemData)] pub struct Z605_1<'a> { f0: Option<WriteExpect<'a, D3>>, }
-#[derive(SystemData)] pub struct Z605_2<'a>(pub Read<'a, D3, Hc<D0>>);
-#[derive(SystemData)] pub struct Z605_0<'a>(pub Z605_1<'a>, pub Z605_2<'a>);
-shredh::zoo_case!(c605, 605, 'a, Z605_0<'a>);
-shredh::zoo_case!(c613, 613, 'a, (Write<'a, D0, PanicHandler>, WriteExpect<'a, N3>, ));
-shredh::zoo_case!(c621, 621, 'a, ((Write<'a, N0, PanicHandler>, ), ));
-shredh::zoo_case!(c629, 629, 'a, (Read<'a, D2, DefaultProvider>, Option<ReadExpect<'a, N3>>, Read<'a, D2, DefaultProvider>, ));
-#[derive(SystemData)] pub struct Z637_0<'a, T0: Debug + Resource + Default>(Write<'a, T0, DefaultProvider>);
-shredh::zoo_case!(c637, 637, 'a, (Z637_0<'a, D2>, Read<'a, D2, PanicHandler>, ));
-#[derive(SystemData)] pub struct Z645_1<'a> { f0: Write<'a, D2, Hc<D1>>, }
-#[derive(SystemData)] pub struct Z645_0<'a> { f0: Z645_1<'a>, }
-shredh::zoo_case!(c645, 645, 'a, Z645_0<'a>);
-#[derive(SystemData)] pub struct Z653_0<'a, T0: Debug + Resource + for<'b> Hrtb<'b>>(pub Read<'a, T0, Hc<D1>>);
-shredh::zoo_case!(c653, 653, 'a, (Z653_0<'a, D0>, (Option<ReadExpect<'a, D0>>, ), ));
-#[derive(SystemData)] pub struct Z661_1<'a, T0: Debug + Resource> { f0: Option<Read<'a, T0, PanicHandler>>, }
-#[derive(SystemData)] pub struct Z661_0<'a> { f0: Write<'a, D3, Hc<D2>>, f1: Z661_1<'a, D3>, }
-shredh::zoo_case!(c661, 661, 'a, Z661_0<'a>);
-#[derive(SystemData)] pub struct Z669_0<'a> { f0: (), f1: Option<Write<'a, N1, PanicHandler>>, }
-shredh::zoo_case!(c669, 669, 'a, Z669_0<'a>);
-#[derive(SystemData)] pub struct Z677_0<'a>(pub Read<'a, D2, Hc<D0>>, pub (Option<Write<'a, D2, PanicHandler>>, ));
-shredh::zoo_case!(c677, 677, 'a, Z677_0<'a>);
-shredh::zoo_case!(c685, 685, 'a, (Read<'a, D2>, Write<'a, D2, Hc<D3>>, ));
-#[derive(SystemData)] pub struct Z693_0<'a> { f0: ReadExpect<'a, N2>, f1: ReadExpect<'a, N0>, }
-shredh::zoo_case!(c693, 693, 'a, Z693_0<'a>);
-#[derive(SystemData)] pub struct Z701_1<'a> { pub f0: Read<'a, D0, Hc<D2>>, }
-#[derive(SystemData)] pub struct Z701_0<'a>(pub Z701_1<'a>, pub Write<'a, D2, Hc<D0>>);
-shredh::zoo_case!(c701, 701, 'a, Z701_0<'a>);
-shredh::zoo_case!(c709, 709, 'a, (Option<Write<'a, N1>>, WriteExpect<'a, N1>, ));
-#[derive(SystemData)] pub struct Z717_0<'a, 'x, T0: Resource> { f0: Option<Write<'a, T0>>, f1: PhantomData<&'x i64>, }
-shredh::zoo_case!(c717, 717, 'a, Z717_0<'a, 'a, N1>);
-#[derive(SystemData)] pub struct Z725_0<'a>(pub Read<'a, D2, Hc<D1>>, pub (ReadExpect<'a, D1>, ));
-shredh::zoo_case!(c725, 725, 'a, Z725_0<'a>);
-shredh::zoo_case!(c733, 733, 'a, ((), (), ));
-#[derive(SystemData)] pub struct Z741_0<'a, T0> where T0: Debug + Resource + for<'b> Hrtb<'b> + Default { f0: Read<'a, D1, Hc<D3>>, f1: Read<'a, T0, DefaultProvider>, }
-shredh::zoo_case!(c741, 741, 'a, Z741_0<'a, D1>);
-#[derive(SystemData)] pub struct Z749_1<'a> { pub f0: WriteExpect<'a, N2>, }
-#[derive(SystemData)] pub struct Z749_0<'a, U0>(Z749_1<'a>, U0) where U0: SystemData<'a>;
-shredh::zoo_case!(c749, 749, 'a, Z749_0<'a, Option<Read<'a, N2>>>);
-shredh::zoo_case!(c757, 757, 'a, (WriteExpect<'a, N2>, PhantomData<u8>, ));
-#[derive(SystemData)] pub struct Z765_0<'a> { pub f0: Write<'a, D0, DefaultProvider>, pub f1: WriteExpect<'a, D0>, }
-shredh::zoo_case!(c765, 765, 'a, Z765_0<'a>);
-#[derive(SystemData)] pub struct Z773_0<'a, U0: SystemData<'a>>(pub (Read<'a, D0, DefaultProvider>, ), pub U0);
-shredh::zoo_case!(c773, 773, 'a, Z773_0<'a, Write<'a, D0>>);
-shredh::zoo_case!(c781, 781, 'a, (Option<Write<'a, D1>>, Option<Write<'a, N3, PanicHandler>>, ));
-#[derive(SystemData)] pub struct Z789_0<'a, U0> where U0: SystemData<'a> { pub f0: U0, pub f1: Write<'a, D3, PanicHandler>, }
-shredh::zoo_case!(c789, 789, 'a, Z789_0<'a, Write<'a, D3, Hc<D1>>>);
-#[derive(SystemData)] pub struct Z797_0<'a>(pub (PhantomData<fn() -> N2>, ), pub ReadExpect<'a, N3>);
-shredh::zoo_case!(c797, 797, 'a, Z797_0<'a>);
-shredh::zoo_case!(c805, 805, 'a, ((), Option<WriteExpect<'a, D3>>, ));
-#[derive(SystemData)] pub struct Z813_0<'a> { f0: Write<'a, D3>, f1: Read<'a, D2, PanicHandler>, }
-shredh::zoo_case!(c813, 813, 'a, Z813_0<'a>);
-#[derive(SystemData)] pub struct Z821_1<'a, T0: Resource> { f0: Option<Write<'a, T0>>, }
-#[derive(SystemData)] pub struct Z821_0<'a>(Z821_1<'a, D3>, Write<'a, D3>);
-shredh::zoo_case!(c821, 821, 'a, Z821_0<'a>);
-shredh::zoo_case!(c829, 829, 'a, (Write<'a, N3, PanicHandler>, (), ));
-#[derive(SystemData)] pub struct Z837_0<'a, T0: Debug + Resource, T1: Resource + ZRes> { pub f0: Option<Read<'a, T0>>, pub f1: ReadExpect<'a, T1>, }
-shredh::zoo_case!(c837, 837, 'a, Z837_0<'a, N1, N1>);
-#[derive(SystemData)] pub struct Z845_1<'a, T0> where T0: Resource + ZRes { f0: Write<'a, T0>, }
-#[derive(SystemData)] pub struct Z845_0<'a, T0>(Z845_1<'a, D2>, Read<'a, T0, PanicHandler>) where T0: Debug + Resource;
-shredh::zoo_case!(c845, 845, 'a, Z845_0<'a, D2>);
-shredh::zoo_case!(c853, 853, 'a, (Read<'a, D3, Hc<D0>>, Read<'a, D3, DefaultProvider>, ));
-#[derive(SystemData)] pub struct Z861_0<'a, T0> where T0: Resource { f0: Read<'a, T0>, f1: Write<'a, D3, DefaultProvider>, }
-shredh::zoo_case!(c861, 861, 'a, Z861_0<'a, D3>);
-shredh::zoo_case!(c869, 869, 'a, ((Write<'a, D3, DefaultProvider>, ), Read<'a, D3, Hc<D0>>, ));
-shredh::zoo_case!(c877, 877, 'a, (Option<Read<'a, D1>>, Read<'a, D1, Hc<D0>>, ));
-#[derive(SystemData)] pub struct Z885_0<'a, T0: Debug + Resource> { f0: Write<'a, D2>, f1: Option<Read<'a, T0>>, }
-shredh::zoo_case!(c885, 885, 'a, Z885_0<'a, D2>);
-#[derive(SystemData)] pub struct Z893_1<'a> { pub f0: Read<'a, D2, Hc<D0>>, }
-#[derive(SystemData)] pub struct Z893_0<'a>(Read<'a, D0, Hc<D2>>, Z893_1<'a>);
-shredh::zoo_case!(c893, 893, 'a, Z893_0<'a>);
-shredh::zoo_case!(c901, 901, 'a, ((), ));
-shredh::zoo_case!(c909, 909, 'a, ((), (), WriteExpect<'a, D2>, ));
-shredh::zoo_case!(c917, 917, 'a, (Option<WriteExpect<'a, N0>>, (), (), (), (), (), ));
-shredh::zoo_case!(c925, 925, 'a, ((), Read<'a, D2, Hc<D2>>, (), (), (), (), (), ));
-shredh::zoo_case!(c933, 933, 'a, ((), Write<'a, D0>, (), (), (), (), (), (), ));
-shredh::zoo_case!(c941, 941, 'a, (Write<'a, D2>, (), (), (), (), (), (), (), (), (), ));
-shredh::zoo_case!(c949, 949, 'a, ((), (), (), (), (), (), (), (), Option<ReadExpect<'a, N1>>, (), ));
-shredh::zoo_case!(c957, 957, 'a, ((), (), (), (), (), Read<'a, D0, DefaultProvider>, (), (), (), (), (), (), (), ));
-shredh::zoo_case!(c965, 965, 'a, ((), (), (), (), (), (), (), (), (), (), (), (), (), (), (), ));
-shredh::zoo_case!(c973, 973, 'a, ((), (), (), (), (), (), (), Option<Read<'a, N1>>, (), (), (), (), (), (), (), ));
-shredh::zoo_case!(c981, 981, 'a, ((), (), (), (), (), (), (), (), (), (), (), (), (), (), (), (), (), (), (), (), (), ));
-shredh::zoo_case!(c989, 989, 'a, ((), (), (), (), (), (), (), Read<'a, D1>, (), (), (), (), (), (), (), (), (), (), (), (), (), ));
-shredh::zoo_case!(c997, 997, 'a, ((), (), (), (), (), (), (), (), (), (), (), (), (), (), (), Write<'a, D0, PanicHandler>, (), (), (), (), (), ));
-shredh::zoo_case!(c1005, 1005, 'a, ((), Read<'a, D3, Hc<D3>>, (), (), (), (), (), (), (), (), (), (), (), (), (), (), (), (), (), (), (), (), (), (), (), (), ));
-shredh::zoo_case!(c1013, 1013, 'a, ((), (), (), (), (), (), (), (), (), Write<'a, D2, DefaultProvider>, (), (), (), (), (), (), (), (), (), (), (), (), (), (), (), (), ));
-shredh::zoo_case!(c1021, 1021, 'a, ((), (), (), (), (), (), (), (), (), (), (), (), (), (), (), (), (), Write<'a, D0>, (), (), (), (), (), (), (), (), ));
-shredh::zoo_case!(c1029, 1029, 'a, ((), (), (), (), (), (), (), (), (), (), (), (), (), (), (), (), (), (), (), (), (), (), (), (), (), Write<'a, D3, DefaultProvider>, ));
-shredh::zoo_case!(c1037, 1037, 'a, ((), (), (), (), (), (), (), (), Read<'a, D1, Hc<D1>>, (), (), (), (), (), (), (), (), (), (), (), (), (), (), (), (), (), ));
-shredh::zoo_case!(c1045, 1045, 'a, ((), (), Option<Read<'a, N0>>, (), (), (), (), (), (), (), (), (), (), (), (), (), (), (), (), (), (), (), (), (), (), (), ));
-shredh::zoo_case!(c1053, 1053, 'a, ((), (), (), (), (), Write<'a, D3, DefaultProvider>, (), (), (), (), ));
-shredh::zoo_case!(c1061, 1061, 'a, ((), (), Option<ReadExpect<'a, D2>>, ));
-shredh::zoo_case!(c1069, 1069, 'a, ((), (), (), (), (), (), (), (), (), PhantomData<(Write<'a, D1>,)>, (), (), (), ));
-shredh::zoo_case!(c1077, 1077, 'a, ((), (), (), (), (), (), (), (), (), Write<'a, D3, DefaultProvider>, (), (), (), ));
-shredh::zoo_case!(c1085, 1085, 'a, ((), (), (), (), (), (), (), (), Read<'a, D2, DefaultProvider>, (), (), (), (), (), (), (), (), (), (), (), (), (), (), (), (), (), ));
-shredh::zoo_case!(c1093, 1093, 'a, ((), Option<ReadExpect<'a, N0>>, (), (), (), (), (), (), (), (), (), (), (), ));
-shredh::zoo_case!(c1101, 1101, 'a, ((), (), (), (), (), Option<Read<'a, N2, PanicHandler>>, (), (), (), (), (), (), (), (), (), ));
-shredh::zoo_case!(c1109, 1109, 'a, ((), (), (), (), (), (), (), (), (), (), (), (), (), (), (), (), (), (), (), (), (), (), (), (), Option<Read<'a, N0, PanicHandler>>, (), ));
-shredh::zoo_case!(c1117, 1117, 'a, ((), (), (), (), (), (), (), (), (), (), (), (), (), (), (), Read<'a, D2>, (), (), (), (), (), ));
-shredh::zoo_case!(c1125, 1125, 'a, ((), (), (), PhantomData<D0>, (), (), ));
-shredh::zoo_case!(c1133, 1133, 'a, ((), (), (), (), Write<'a, N3, PanicHandler>, (), (), (), (), (), (), (), (), (), (), (), (), (), (), (), (), ));
-shredh::zoo_case!(c1141, 1141, 'a, ((), (), (), (), (), (), (), (), (), (), (), ReadExpect<'a, N2>, (), ));
-shredh::zoo_case!(c1149, 1149, 'a, ((), (), (), (), (), WriteExpect<'a, N2>, (), (), (), (), (), (), (), (), (), (), (), (), (), (), (), (), (), (), (), (), ));
-shredh::zoo_case!(c1157, 1157, 'a, ((), (), (), (), Write<'a, D3, Hc<D3>>, (), ));
-shredh::zoo_case!(c1165, 1165, 'a, ((), (), (), (), (), (), (), (), (), (), (), (), (), Read<'a, N2, PanicHandler>, (), ));
-shredh::zoo_case!(c1173, 1173, 'a, ((), (), (), (), (), (), Write<'a, D3, Hc<D3>>, (), (), (), (), (), (), ));
-shredh::zoo_case!(c1181, 1181, 'a, ((), (), (), Read<'a, D1>, (), (), (), (), ));
-shredh::zoo_case!(c1189, 1189, 'a, ((), (), (), (), (), (), (), (), Option<Write<'a, N2, PanicHandler>>, (), (), (), (), (), (), ));
-shredh::zoo_case!(c1197, 1197, 'a, ((), (), (), (), (), (), Write<'a, N1, PanicHandler>, (), (), (), (), (), (), (), (), (), (), (), (), (), (), (), (), (), (), (), ));
-shredh::zoo_case!(c1205, 1205, 'a, ((), (), (), (), (), (), (), (), (), (), (), (), (), Write<'a, N3, PanicHandler>, (), (), (), (), (), (), (), ));
-shredh::zoo_case!(c1213, 1213, 'a, ((), (), (), (), Option<Read<'a, N2>>, (), (), (), (), (), (), (), (), (), (), (), (), (), (), (), (), (), (), (), (), (), ));
-shredh::zoo_case!(c1221, 1221, 'a, (PhantomData<str>, (), (), (), (), (), (), (), (), (), (), (), (), (), (), ));
-shredh::zoo_case!(c1229, 1229, 'a, ((), (), (), Write<'a, D3>, (), (), (), (), (), (), (), (), (), (), (), ));
-shredh::zoo_case!(c1237, 1237, 'a, ((), (), (), (), (), (), (), (), (), (), (), (), (), (), (), (), (), (), (), (), (), Write<'a, D3>, (), (), (), (), ));
-shredh::zoo_case!(c1245, 1245, 'a, ((), (), (), (), (), (), (), (), (), (), (), (), (), (), (), (), (), (), (), (), PhantomData<str>, (), (), (), (), (), ));
-shredh::zoo_case!(c1253, 1253, 'a, ((), (), (), (), (), (), Read<'a, D3, Hc<D3>>, (), (), (), (), (), (), (), (), (), (), (), (), (), (), ));
-shredh::zoo_case!(c1261, 1261, 'a, (Read<'a, D1, Hc<D1>>, (), (), (), (), (), (), (), (), (), (), (), (), (), (), ));
-shredh::zoo_case!(c1269, 1269, 'a, ((), (), (), (), (), (), (), (), (), (), (), (), (), (), (), (), (), (), Option<Write<'a, N1, PanicHandler>>, (), (), ));
-shredh::zoo_case!(c1277, 1277, 'a, ((), (), Option<Write<'a, N2, PanicHandler>>, (), (), (), (), (), (), (), (), (), (), (), (), (), (), (), (), (), (), (), (), (), (), (), ));
-shredh::zoo_case!(c1285, 1285, 'a, ((), Option<Read<'a, D1, PanicHandler>>, (), (), (), (), (), (), (), (), (), (), (), (), (), ));
-shredh::zoo_case!(c1293, 1293, 'a, ((), (), (), Write<'a, D3, DefaultProvider>, (), (), (), (), ));
-shredh::zoo_case!(c1301, 1301, 'a, ((), Option<Write<'a, N3>>, (), (), (), (), (), (), ));
-shredh::zoo_case!(c1309, 1309, 'a, ((), Write<'a, D0, Hc<D0>>, (), (), (), (), ));
-shredh::zoo_case!(c1317, 1317, 'a, ((), (), (), (), (), (), (), (), (), (), (), (), (), (), (), (), (), (), (), (), (), (), (), (), (), Option<WriteExpect<'a, N0>>, ));
-shredh::zoo_case!(c1325, 1325, 'a, ((), (), (), (), (), (), (), (), (), (), (), (), (), (), (), (), (), (), (), Read<'a, D1>, (), ));
-shredh::zoo_case!(c1333, 1333, 'a, ((), Read<'a, D1, Hc<D1>>, (), ));
-shredh::zoo_case!(c1341, 1341, 'a, ((), (), Write<'a, D1, DefaultProvider>, ));
-shredh::zoo_case!(c1349, 1349, 'a, ((), (), (), (), (), (), Read<'a, D1, Hc<D1>>, ));
-shredh::zoo_case!(c1357, 1357, 'a, (PhantomData<(Write<'a, D1>,)>, (), (), ));
-shredh::zoo_case!(c1365, 1365, 'a, ((), (), (), (), (), (), (), Option<Read<'a, N2, PanicHandler>>, (), (), (), (), (), (), (), (), (), (), (), (), (), (), (), (), (), (), ));
-shredh::zoo_case!(c1373, 1373, 'a, (PhantomData<dyn Send>, (), (), (), (), (), (), (), (), (), (), (), (), (), (), (), (), (), (), (), (), (), (), (), (), (), ));
-shredh::zoo_case!(c1381, 1381, 'a, ((), Write<'a, D0, Hc<D0>>, (), (), (), (), (), ));
-shredh::zoo_case!(c1389, 1389, 'a, ((), (), (), (), (), (), (), (), (), (), (), (), (), (), (), (), (), (), (), (), (), (), (), (), PhantomData<dyn Send>, (), ));
-shredh::zoo_case!(c1397, 1397, 'a, ((), (), (), Option<Read<'a, N1>>, (), (), (), ));
-shredh::zoo_case!(c1405, 1405, 'a, (ReadExpect<'a, D2>, Option<Read<'a, N3, PanicHandler>>, ));
-shredh::zoo_case!(c1413, 1413, 'a, (Read<'a, D2>, Read<'a, N1, PanicHandler>, Option<Read<'a, D0, PanicHandler>>, Read<'a, D3>, ));
-shredh::zoo_case!(c1421, 1421, 'a, (Read<'a, N5, PanicHandler>, Option<Read<'a, N0, PanicHandler>>, Read<'a, D1, DefaultProvider>, ReadExpect<'a, N2>, Option<Read<'a, N3>>, Read<'a, D6, DefaultProvider>, ));
-shredh::zoo_case!(c1429, 1429, 'a, (Option<ReadExpect<'a, N7>>, Read<'a, D12>, ReadExpect<'a, N8>, Option<ReadExpect<'a, D24>>, Read<'a, D2>, ReadExpect<'a, N3>, Option<ReadExpect<'a, D1>>, Read<'a, D20, DefaultProvider>, ));
-shredh::zoo_case!(c1437, 1437, 'a, (ReadExpect<'a, N13>, Option<Read<'a, N12, PanicHandler>>, Read<'a, D5>, Read<'a, N3, PanicHandler>, Option<ReadExpect<'a, D23>>, Read<'a, D17>, Read<'a, N10, PanicHandler>, Option<Read<'a, N6, PanicHandler>>, Read<'a, D16>, Read<'a, N8, PanicHandler>, ));
-shredh::zoo_case!(c1445, 1445, 'a, (Read<'a, D12>, Read<'a, N21, PanicHandler>, Option<Read<'a, D10, PanicHandler>>, Read<'a, D8, DefaultProvider>, Read<'a, N18, PanicHandler>, Option<Read<'a, N19>>, Read<'a, D20>, ReadExpect<'a, N14>, Option<Read<'a, N7, PanicHandler>>, Read<'a, D13>, Read<'a, N9, PanicHandler>, Option<ReadExpect<'a, N6>>, ));
-shredh::zoo_case!(c1453, 1453, 'a, (Read<'a, D25>, ReadExpect<'a, N7>, Option<Read<'a, N0>>, Read<'a, D9>, Read<'a, D18, PanicHandler>, Option<ReadExpect<'a, D13>>, Read<'a, D2, DefaultProvider>, ReadExpect<'a, D15>, Option<ReadExpect<'a, N4>>, Read<'a, D20>, Read<'a, D3, PanicHandler>, Option<ReadExpect<'a, N17>>, Read<'a, D1>, Read<'a, N23, PanicHandler>, ));
-shredh::zoo_case!(c1461, 1461, 'a, (Read<'a, D1, PanicHandler>, Option<ReadExpect<'a, D20>>, Read<'a, D19, DefaultProvider>, ReadExpect<'a, N11>, Option<Read<'a, N0, PanicHandler>>, Read<'a, D12>, Read<'a, D25, PanicHandler>, Option<Read<'a, N8, PanicHandler>>, Read<'a, D13>, ReadExpect<'a, N10>, Option<Read<'a, D14, PanicHandler>>, Read<'a, D21>, ReadExpect<'a, N6>, Option<Read<'a, N7, PanicHandler>>, Read<'a, D16>, Read<'a, D4, PanicHandler>, ));
-shredh::zoo_case!(c1469, 1469, 'a, (Option<Read<'a, N1, PanicHandler>>, Read<'a, D17>, ReadExpect<'a, D3>, Option<Read<'a, D6>>, Read<'a, D9, DefaultProvider>, ReadExpect<'a, N20>, Option<Read<'a, D2, PanicHandler>>, Read<'a, D21>, Read<'a, N13, PanicHandler>, Option<ReadExpect<'a, N16>>, Read<'a, D0>, ReadExpect<'a, N12>, Option<Read<'a, N11>>, Read<'a, D8>, Read<'a, N15, PanicHandler>, Option<Read<'a, D25>>, Read<'a, D5, DefaultProvider>, Read<'a, D24, PanicHandler>, ));
-shredh::zoo_case!(c1477, 1477, 'a, (Read<'a, D2>, ReadExpect<'a, D20>, Option<ReadExpect<'a, N12>>, Read<'a, D5>, ReadExpect<'a, D3>, Option<ReadExpect<'a, D17>>, Read<'a, D19>, ReadExpect<'a, D25>, Option<ReadExpect<'a, N18>>, Read<'a, D0, DefaultProvider>, Read<'a, N16, PanicHandler>, Option<Read<'a, N13, PanicHandler>>, Read<'a, D10>, ReadExpect<'a, D23>, Option<Read<'a, N1>>, Read<'a, D11>, ReadExpect<'a, D4>, Option<Read<'a, N24, PanicHandler>>, Read<'a, D15, DefaultProvider>, ReadExpect<'a, N14>, ));
-shredh::zoo_case!(c1485, 1485, 'a, (Read<'a, D8, DefaultProvider>, Read<'a, D12, PanicHandler>, Option<Read<'a, D4, PanicHandler>>, Read<'a, D14, DefaultProvider>, ReadExpect<'a, N18>, Option<ReadExpect<'a, N23>>, Read<'a, D3>, ReadExpect<'a, N5>, Option<ReadExpect<'a, D0>>, Read<'a, D16>, ReadExpect<'a, N11>, Option<Read<'a, D13, PanicHandler>>, Read<'a, D19, DefaultProvider>, ReadExpect<'a, N17>, Option<Read<'a, N7>>, Read<'a, D20, DefaultProvider>, ReadExpect<'a, N1>, Option<Read<'a, N6>>, Read<'a, D22, DefaultProvider>, ReadExpect<'a, D15>, Option<Read<'a, N24>>, Read<'a, D9>, ));
-shredh::zoo_case!(c1493, 1493, 'a, (Read<'a, D10>, Read<'a, N14, PanicHandler>, Option<ReadExpect<'a, D7>>, Read<'a, D22, DefaultProvider>, Read<'a, D24, PanicHandler>, Option<ReadExpect<'a, N21>>, Read<'a, D9>, Read<'a, N20, PanicHandler>, Option<Read<'a, D15, PanicHandler>>, Read<'a, D0, DefaultProvider>, Read<'a, D18, PanicHandler>, Option<ReadExpect<'a, N6>>, Read<'a, D25, DefaultProvider>, ReadExpect<'a, N11>, Option<ReadExpect<'a, D23>>, Read<'a, D16>, Read<'a, D19, PanicHandler>, Option<Read<'a, N8>>, Read<'a, D12>, ReadExpect<'a, D4>, Option<Read<'a, N5, PanicHandler>>, Read<'a, D2>, ReadExpect<'a, D17>, Option<Read<'a, N13>>, ));
-shredh::zoo_case!(c1501, 1501, 'a, (Read<'a, D12, DefaultProvider>, ReadExpect<'a, D2>, Option<Read<'a, D7, PanicHandler>>, Read<'a, D21, DefaultProvider>, Read<'a, N25, PanicHandler>, Option<Read<'a, N19, PanicHandler>>, Read<'a, D10, DefaultProvider>, ReadExpect<'a, N17>, Option<ReadExpect<'a, D14>>, Read<'a, D3>, Read<'a, D8, PanicHandler>, Option<Read<'a, N23, PanicHandler>>, Read<'a, D1, DefaultProvider>, ReadExpect<'a, N18>, Option<Read<'a, N20, PanicHandler>>, Read<'a, D0>, Read<'a, N13, PanicHandler>, Option<Read<'a, N9>>, Read<'a, D15, DefaultProvider>, Read<'a, D22, PanicHandler>, Option<Read<'a, N5>>, Read<'a, D11>, Read<'a, N6, PanicHandler>, Option<Read<'a, D16, PanicHandler>>, Read<'a, D4>, ReadExpect<'a, N24>, ));
-#[derive(SystemData)] pub struct Z1509_1<'a, T0, T1: Resource + ZRes> where T0: Debug + Resource { pub f0: Write<'a, T0, DefaultProvider>, pub f1: Read<'a, T1, PanicHandler>, }
-#[derive(SystemData)] pub struct Z1509_0<'a, U0: SystemData<'a>> { f0: U0, f1: Write<'a, D1>, f2: Read<'a, D3>, }
-shredh::zoo_case!(c1509, 1509, 'a, Z1509_0<'a, Z1509_1<'a, D0, N2>>);
-#[derive(SystemData)] pub struct Z1517_0<'a, U0: SystemData<'a>> { f0: Read<'a, D2>, f1: Write<'a, D0, DefaultProvider>, f2: U0, }
-shredh::zoo_case!(c1517, 1517, 'a, Z1517_0<'a, Write<'a, D1, DefaultProvider>>);
-#[derive(SystemData)] pub struct Z1525_0<'a, U0: SystemData<'a>>(pub U0, pub Write<'a, D0, DefaultProvider>, pub Read<'a, D3>);
-shredh::zoo_case!(c1525, 1525, 'a, Z1525_0<'a, Read<'a, D1, Hc<D4>>>);
-#[derive(SystemData)] pub struct Z1533_1<'a> { f0: Write<'a, D2>, f1: Read<'a, D3, PanicHandler>, }
-#[derive(SystemData)] pub struct Z1533_0<'a, T0, U0: SystemData<'a>, T1>(pub Read<'a, T0, DefaultProvider>, pub U0, pub Read<'a, T1>) where T0: Debug + Resource + for<'b> Hrtb<'b>, T1: Debug + Resource + Default;
-shredh::zoo_case!(c1533, 1533, 'a, Z1533_0<'a, D4, Z1533_1<'a>, D4>);
-shredh::zoo_case!(c1541, 1541, 'a, (Read<'a, D5, PanicHandler>, WriteExpect<'a, D4>, Option<Read<'a, N3>>, Option<WriteExpect<'a, D2>>, Read<'a, D0, Hc<D5>>, ));
-#[derive(SystemData)] pub struct Z1549_0<'a, U0, U1, U2>(pub U0, pub Read<'a, D3, Hc<D20>>, pub Write<'a, D20, Hc<D1>>, pub (), pub U1, pub U2, pub Write<'a, D0, DefaultProvider>, pub Read<'a, N21, PanicHandler>) where U0: SystemData<'a>, U1: SystemData<'a>, U2: SystemData<'a>;
-shredh::zoo_case!(c1549, 1549, 'a, Z1549_0<'a, Option<WriteExpect<'a, N5>>, PhantomData<(Write<'a, D1>,)>, Read<'a, D18, DefaultProvider>>);
-#[derive(SystemData)] pub struct Z1557_0<'a, U0, U1, U2> where U0: SystemData<'a>, U1: SystemData<'a>, U2: SystemData<'a> { pub f0: U0, pub f1: Read<'a, D23, DefaultProvider>, pub f2: Write<'a, D25>, pub f3: U1, pub f4: WriteExpect<'a, N5>, pub f5: Option<ReadExpect<'a, D17>>, pub f6: Option<Write<'a, N22, PanicHandler>>, pub f7: U2, pub f8: Write<'a, D11, Hc<D12>>, pub f9: (), pub f10: PhantomData<dyn Send>, }
-shredh::zoo_case!(c1557, 1557, 'a, Z1557_0<'a, PhantomData<fn() -> N2>, ReadExpect<'a, N13>, Read<'a, D14, Hc<D11>>>);
-shredh::zoo_case!(c1565, 1565, 'a, (Option<Read<'a, D22, PanicHandler>>, Option<Write<'a, D10>>, Read<'a, D6, Hc<D19>>, Write<'a, D19, Hc<D25>>, (), PhantomData<fn() -> N2>, Read<'a, D11>, Write<'a, D3, DefaultProvider>, ReadExpect<'a, D13>, ));
-shredh::zoo_case!(c1573, 1573, 'a, (Write<'a, D1, Hc<D1>>, ));
-shredh::zoo_case!(c1581, 1581, 'a, (Option<Write<'a, D15>>, Read<'a, D20, Hc<D19>>, Write<'a, D19, Hc<D9>>, (), PhantomData<(Write<'a, D1>,)>, Read<'a, D6>, Write<'a, D13, DefaultProvider>, Read<'a, N8, PanicHandler>, WriteExpect<'a, N25>, Option<ReadExpect<'a, N17>>, Option<Write<'a, D18, PanicHandler>>, Read<'a, D22, Hc<D24>>, Write<'a, D24, Hc<D2>>, (), PhantomData<&'a u8>, Read<'a, D12, DefaultProvider>, Write<'a, D4, DefaultProvider>, ReadExpect<'a, D14>, Write<'a, N1, PanicHandler>, Option<Read<'a, N0, PanicHandler>>, Option<WriteExpect<'a, N21>>, Read<'a, D7, Hc<D5>>, Write<'a, D5, Hc<D11>>, (), ));
-#[derive(SystemData)] pub struct Z1589_0<'a, T0: Debug + Resource, T1: Debug + Resource, T2: Resource>(pub Read<'a, T0, Hc<D19>>, pub Write<'a, T1, Hc<D16>>, pub (), pub PhantomData<fn() -> N2>, pub Read<'a, T2>, pub Write<'a, D12, DefaultProvider>, pub ReadExpect<'a, N17>, pub WriteExpect<'a, N24>, pub Option<ReadExpect<'a, D4>>, pub Option<WriteExpect<'a, N0>>, pub Read<'a, D21, Hc<D5>>, pub Write<'a, D5, Hc<D25>>, pub (), pub PhantomData<[u32]>);
-shredh::zoo_case!(c1589, 1589, 'a, Z1589_0<'a, D13, D19, D20>);
-#[derive(SystemData)] pub struct Z1597_1<'a>(PhantomData<&'a u8>, Read<'a, D0, Hc<D3>>, Option<Read<'a, D0, PanicHandler>>);
-#[derive(SystemData)] pub struct Z1597_3<'a, U0: SystemData<'a>>(Write<'a, D0, PanicHandler>, Read<'a, D3>, U0, Write<'a, D3, Hc<D0>>);
-#[derive(SystemData)] pub struct Z1597_2<'a> { f0: Z1597_3<'a, PhantomData<str>>, }
-#[derive(SystemData)] pub struct Z1597_0<'a>(Read<'a, D0, PanicHandler>, (((), ), (), Z1597_1<'a>, Read<'a, D0, DefaultProvider>, ), Z1597_2<'a>, PhantomData<str>);
-shredh::zoo_case!(c1597, 1597, 'a, Z1597_0<'a>);
-#[derive(SystemData)] pub struct Z1605_1<'a, T0: Resource + ZRes + Default> { pub f0: (), pub f1: Write<'a, T0, DefaultProvider>, }
-#[derive(SystemData)] pub struct Z1605_0<'a>(pub ((), Read<'a, D1>, ), pub Z1605_1<'a, D2>, pub (Option<ReadExpect<'a, D1>>, ), pub (PhantomData<D0>, Read<'a, D2, Hc<D1>>, ReadExpect<'a, D1>, ));
-#[derive(SystemData)] pub struct Z1605_3<'a> { pub f0: Write<'a, D1>, }
-#[derive(SystemData)] pub struct Z1605_2<'a>(pub (Write<'a, D2, DefaultProvider>, Read<'a, D1, DefaultProvider>, ), pub Z1605_3<'a>, pub (Write<'a, D1, DefaultProvider>, Write<'a, D2, DefaultProvider>, Option<ReadExpect<'a, D2>>, ));
-shredh::zoo_case!(c1605, 1605, 'a, (Z1605_0<'a>, Z1605_2<'a>, ));
-#[derive(SystemData)] pub struct Z1613_2<'a, T0: Resource>(pub Read<'a, D0, PanicHandler>, pub Write<'a, T0, Hc<D0>>);
-#[derive(SystemData)] pub struct Z1613_1<'a> { pub f0: Option<ReadExpect<'a, D1>>, pub f1: Z1613_2<'a, D1>, }
-#[derive(SystemData)] pub struct Z1613_3<'a> { f0: Read<'a, D1, PanicHandler>, f1: ((), ), }
-#[derive(SystemData)] pub struct Z1613_0<'a> { f0: Z1613_1<'a>, f1: Z1613_3<'a>, f2: ((), PhantomData<&'a u8>, ), f3: ReadExpect<'a, D1>, }
-shredh::zoo_case!(c1613, 1613, 'a, Z1613_0<'a>);
-#[derive(SystemData)] pub struct Z1621_1<'a, U0: SystemData<'a>>(U0, Option<Read<'a, D1>>);
-#[derive(SystemData)] pub struct Z1621_0<'a, T0, T1>(pub Read<'a, T0>, pub Z1621_1<'a, PhantomData<u8>>, pub (PhantomData<D0>, Write<'a, D1>, ), pub Read<'a, T1, PanicHandler>) where T0: Resource + Default, T1: Debug + Resource + for<'b> Hrtb<'b>;
-shredh::zoo_case!(c1621, 1621, 'a, Z1621_0<'a, D0, N3>);
-#[derive(SystemData)] pub struct Z1629_1<'a> { f0: Write<'a, D2, Hc<D4>>, }
-#[derive(SystemData)] pub struct Z1629_0<'a> { f0: Z1629_1<'a>, f1: (PhantomData<dyn Send>, ReadExpect<'a, N3>, ), }
-shredh::zoo_case!(c1629, 1629, 'a, (Z1629_0<'a>, Write<'a, D4, PanicHandler>, ));
-#[derive(SystemData)] pub struct Z1637_0<'a, U0: SystemData<'a>, T0: Resource + ZRes + Default>(pub U0, pub Write<'a, T0>);
-shredh::zoo_case!(c1637, 1637, 'a, (Z1637_0<'a, PhantomData<D0>, D2>, Write<'a, D2, DefaultProvider>, ));
-#[derive(SystemData)] pub struct Z1645_1<'a> { f0: PhantomData<&'a u8>, f1: Read<'a, D3, PanicHandler>, }
-#[derive(SystemData)] pub struct Z1645_0<'a, T0: Resource>(((), (ReadExpect<'a, D3>, ), (Option<ReadExpect<'a, D0>>, ), ), Write<'a, T0, Hc<D3>>, (Z1645_1<'a>, ));
-shredh::zoo_case!(c1645, 1645, 'a, Z1645_0<'a, D0>);
-#[derive(SystemData)] pub struct Z1653_2<'a, T0: Resource, T1> where T1: Resource + Default { f0: Option<WriteExpect<'a, T0>>, f1: Read<'a, T1>, }
-#[derive(SystemData)] pub struct Z1653_1<'a, 'x>(Z1653_2<'a, D2, D2>, PhantomData<&'x i64>, Option<Read<'a, D2>>);
-#[derive(SystemData)] pub struct Z1653_0<'a>(pub Z1653_1<'a, 'a>);
-shredh::zoo_case!(c1653, 1653, 'a, Z1653_0<'a>);
-#[derive(SystemData)] pub struct Z1661_1<'a>(Write<'a, D3>, ReadExpect<'a, D0>, Read<'a, D1>);
-#[derive(SystemData)] pub struct Z1661_2<'a, T0, T1, T2>(pub Write<'a, D4, Hc<D0>>, pub Read<'a, T0, DefaultProvider>, pub Option<Read<'a, T1>>, pub Write<'a, T2, Hc<D1>>) where T0: Resource, T1: Resource + ZRes, T2: Resource;
-#[derive(SystemData)] pub struct Z1661_3<'a, T0: Debug + Resource + for<'b> Hrtb<'b>, T1: Debug + Resource + for<'b> Hrtb<'b>, T2: Resource>(Read<'a, T0, PanicHandler>, WriteExpect<'a, T1>, Read<'a, T2, Hc<D4>>);
-#[derive(SystemData)] pub struct Z1661_0<'a, T0> where T0: Debug + Resource + for<'b> Hrtb<'b> { f0: (Write<'a, D0, DefaultProvider>, Z1661_1<'a>, (Write<'a, D0, DefaultProvider>, PhantomData<&'a u8>, Read<'a, D0, Hc<D4>>, (), ), (Write<'a, D4>, Read<'a, D1, DefaultProvider>, Option<ReadExpect<'a, D3>>, ), ), f1: ReadExpect<'a, T0>, f2: (Z1661_2<'a, D1, D0, D0>, Z1661_3<'a, D0, D0, D0>, ), f3: PhantomData<u8>, }
-shredh::zoo_case!(c1661, 1661, 'a, Z1661_0<'a, D3>);
-shredh::zoo_case!(c1669, 1669, 'a, (((), ), ));
-#[derive(SystemData)] pub struct Z1677_1<'a>((Option<ReadExpect<'a, D0>>, ), ((), Write<'a, D1, Hc<D3>>, Option<ReadExpect<'a, D1>>, Write<'a, D1>, ), ());
-#[derive(SystemData)] pub struct Z1677_0<'a, T0: Resource + ZRes + Default>((), Read<'a, T0>, Write<'a, D0, Hc<D1>>, Z1677_1<'a>);
-shredh::zoo_case!(c1677, 1677, 'a, Z1677_0<'a, D1>);
-#[derive(SystemData)] pub struct Z1685_1<'a, T0: Debug + Resource> { pub f0: Option<Write<'a, D0>>, pub f1: Read<'a, T0, Hc<D4>>, }
-#[derive(SystemData)] pub struct Z1685_0<'a, U0: SystemData<'a>> { pub f0: U0, pub f1: Read<'a, D4, Hc<D0>>, pub f2: Z1685_1<'a, D0>, }
-#[derive(SystemData)] pub struct Z1685_2<'a>(Read<'a, D2, PanicHandler>, ());
-shredh::zoo_case!(c1685, 1685, 'a, (((PhantomData<u8>, Option<Read<'a, D0>>, Write<'a, D2, Hc<D4>>, ), ((), Read<'a, D3, Hc<D2>>, Read<'a, D3, Hc<D4>>, Write<'a, D3, DefaultProvider>, ), (Read<'a, D4, DefaultProvider>, Write<'a, D4, Hc<D3>>, Write<'a, D2, Hc<D3>>, ), (Read<'a, D4>, Read<'a, D4>, ), ), Z1685_0<'a, ReadExpect<'a, D3>>, ((), Read<'a, D4, Hc<D0>>, Z1685_2<'a>, (Option<Read<'a, D2>>, Option<Read<'a, D3, PanicHandler>>, Write<'a, D2, Hc<D0>>, ), ), ));
-#[derive(SystemData)] pub struct Z1693_0<'a>(PhantomData<(Write<'a, D1>,)>, Read<'a, D0>, Option<ReadExpect<'a, D0>>);
-#[derive(SystemData)] pub struct Z1693_1<'a> { f0: Read<'a, D0, DefaultProvider>, }
-#[derive(SystemData)] pub struct Z1693_3<'a, T0>(Option<Write<'a, T0, PanicHandler>>) where T0: Debug + Resource + for<'b> Hrtb<'b>;
-#[derive(SystemData)] pub struct Z1693_2<'a>(Z1693_3<'a, D2>, Option<Write<'a, D2, PanicHandler>>, Option<Write<'a, D2>>, (Read<'a, D2, Hc<D0>>, (), ));
-shredh::zoo_case!(c1693, 1693, 'a, ((Read<'a, D2, PanicHandler>, (Read<'a, D0>, ), Z1693_0<'a>, Z1693_1<'a>, ), Write<'a, D2, DefaultProvider>, Z1693_2<'a>, Write<'a, D0, DefaultProvider>, ));
-shredh::zoo_case!(c1701, 1701, 'a, (((), ), ));
-#[derive(SystemData)] pub struct Z1709_2<'a> { f0: Write<'a, D3, Hc<D1>>, }
-#[derive(SystemData)] pub struct Z1709_1<'a> { f0: Z1709_2<'a>, }
-#[derive(SystemData)] pub struct Z1709_4<'a> { pub f0: Write<'a, D3, DefaultProvider>, }
-#[derive(SystemData)] pub struct Z1709_3<'a, 'x> { pub f0: PhantomData<&'x i64>, pub f1: Z1709_4<'a>, }
-#[derive(SystemData)] pub struct Z1709_0<'a> { pub f0: Z1709_1<'a>, pub f1: Write<'a, D3>, pub f2: Z1709_3<'a, 'static>, pub f3: Read<'a, D3, DefaultProvider>, }
-shredh::zoo_case!(c1709, 1709, 'a, Z1709_0<'a>);
-shredh::zoo_case!(c1717, 1717, 'a, ((Read<'a, D3, DefaultProvider>, PhantomData<(Write<'a, D1>,)>, PhantomData<(Write<'a, D1>,)>, PhantomData<D0>, ), ((), ), Read<'a, D3, Hc<D2>>, ));
-#[derive(SystemData)] pub struct Z1725_2<'a, U0: SystemData<'a>> { f0: U0, f1: Read<'a, D0>, }
-#[derive(SystemData)] pub struct Z1725_1<'a> { f0: Z1725_2<'a, PhantomData<D0>>, f1: Read<'a, D3, PanicHandler>, f2: (Option<WriteExpect<'a, D3>>, Read<'a, D0, PanicHandler>, ), f3: (Read<'a, D3>, PhantomData<(Write<'a, D1>,)>, ), }
-#[derive(SystemData)] pub struct Z1725_4<'a> { f0: Read<'a, D3, DefaultProvider>, f1: PhantomData<(Write<'a, D1>,)>, f2: (), }
-#[derive(SystemData)] pub struct Z1725_5<'a, U0: SystemData<'a>> { pub f0: Read<'a, D3, PanicHandler>, pub f1: (), pub f2: U0, pub f3: PhantomData<D0>, }
-#[derive(SystemData)] pub struct Z1725_3<'a, T0, T1> where T0: Resource, T1: Resource + Default { f0: Option<Write<'a, T0, PanicHandler>>, f1: Read<'a, T1, DefaultProvider>, f2: Z1725_4<'a>, f3: Z1725_5<'a, Option<ReadExpect<'a, D0>>>, }
-#[derive(SystemData)] pub struct Z1725_0<'a, 'x> { f0: Z1725_1<'a>, f1: Z1725_3<'a, D0, D1>, f2: PhantomData<&'x i64>, }
-shredh::zoo_case!(c1725, 1725, 'a, Z1725_0<'a, 'static>);
-#[derive(SystemData)] pub struct Z1733_1<'a, T0: Resource, T1: Resource + Default>(pub Read<'a, N1, PanicHandler>, pub Write<'a, T0>, pub Write<'a, T1, DefaultProvider>);
-#[derive(SystemData)] pub struct Z1733_0<'a>(pub Read<'a, D0, DefaultProvider>, pub Option<WriteExpect<'a, D2>>, pub Z1733_1<'a, D3, D0>);
-#[derive(SystemData)] pub struct Z1733_2<'a>(pub (Read<'a, D0, Hc<D3>>, ));
-#[derive(SystemData)] pub struct Z1733_4<'a>(PhantomData<&'a u8>);
-#[derive(SystemData)] pub struct Z1733_3<'a> { f0: (), f1: Z1733_4<'a>, f2: Read<'a, D0, DefaultProvider>, }
-shredh::zoo_case!(c1733, 1733, 'a, (Z1733_0<'a>, Z1733_2<'a>, Z1733_3<'a>, ));
-shredh::zoo_case!(c1741, 1741, 'a, ((Read<'a, D1, Hc<D2>>, (Write<'a, D2>, ), ), ));
-shredh::zoo_case!(c1749, 1749, 'a, ((Read<'a, D2, DefaultProvider>, PhantomData<&'a u8>, Option<Read<'a, D0, PanicHandler>>, Option<Read<'a, D0, PanicHandler>>, ), (Option<ReadExpect<'a, N1>>, ), Read<'a, D0, DefaultProvider>, ));
-#[derive(SystemData)] pub struct Z1757_1<'a> { f0: Option<Write<'a, D3, PanicHandler>>, f1: Read<'a, D0>, }
-#[derive(SystemData)] pub struct Z1757_2<'a, U0: SystemData<'a>>(pub (), pub Read<'a, D3, Hc<D1>>, pub U0);
-#[derive(SystemData)] pub struct Z1757_0<'a> { f0: Z1757_1<'a>, f1: (Option<ReadExpect<'a, D3>>, ), f2: (Option<WriteExpect<'a, D0>>, Write<'a, D1, DefaultProvider>, ), f3: Z1757_2<'a, Write<'a, D1, Hc<D0>>>, }
-shredh::zoo_case!(c1757, 1757, 'a, Z1757_0<'a>);
-shredh::zoo_case!(c1765, 1765, 'a, ((Read<'a, D3, Hc<D1>>, ), ));
-#[derive(SystemData)] pub struct Z1773_1<'a> { f0: Read<'a, D3, Hc<D0>>, f1: (), }
-#[derive(SystemData)] pub struct Z1773_2<'a>(pub Write<'a, D3, DefaultProvider>);
-#[derive(SystemData)] pub struct Z1773_3<'a>(pub Write<'a, D0>);
-#[derive(SystemData)] pub struct Z1773_5<'a> { pub f0: PhantomData<(Write<'a, D1>,)>, pub f1: (), }
-#[derive(SystemData)] pub struct Z1773_4<'a>(pub Z1773_5<'a>);
-#[derive(SystemData)] pub struct Z1773_0<'a>((PhantomData<D0>, Z1773_1<'a>, Z1773_2<'a>, Z1773_3<'a>, ), Z1773_4<'a>, (Option<Read<'a, D0>>, (Option<ReadExpect<'a, D3>>, Read<'a, D3, DefaultProvider>, ), ));
-shredh::zoo_case!(c1773, 1773, 'a, Z1773_0<'a>);
-#[derive(SystemData)] pub struct Z1781_2<'a>(pub PhantomData<(Write<'a, D1>,)>);
-#[derive(SystemData)] pub struct Z1781_1<'a> { pub f0: Z1781_2<'a>, pub f1: (WriteExpect<'a, D3>, WriteExpect<'a, D3>, Option<Read<'a, D1>>, ReadExpect<'a, D3>, ), pub f2: (Write<'a, D3, Hc<D1>>, Write<'a, D1>, Option<WriteExpect<'a, D3>>, ), }
-#[derive(SystemData)] pub struct Z1781_4<'a, U0, U1, U2: SystemData<'a>> where U0: SystemData<'a>, U1: SystemData<'a> { pub f0: U0, pub f1: WriteExpect<'a, D1>, pub f2: U1, pub f3: U2, }
-#[derive(SystemData)] pub struct Z1781_3<'a> { pub f0: Write<'a, D3, PanicHandler>, pub f1: Z1781_4<'a, Write<'a, D1, Hc<D3>>, Write<'a, D3, Hc<D1>>, Read<'a, D1>>, }
-#[derive(SystemData)] pub struct Z1781_0<'a>(pub Z1781_1<'a>, pub Z1781_3<'a>);
-shredh::zoo_case!(c1781, 1781, 'a, Z1781_0<'a>);
-#[derive(SystemData)] pub struct Z1789_1<'a, U0: SystemData<'a>, U1: SystemData<'a>, U2: SystemData<'a>>(Write<'a, D2, PanicHandler>, U0, U1, U2);
-#[derive(SystemData)] pub struct Z1789_2<'a>(pub Write<'a, D2, PanicHandler>, pub PhantomData<dyn Send>, pub PhantomData<D0>, pub Option<WriteExpect<'a, N1>>);
-#[derive(SystemData)] pub struct Z1789_3<'a> { pub f0: Option<Write<'a, N3>>, }
-#[derive(SystemData)] pub struct Z1789_0<'a, U0: SystemData<'a>, U1: SystemData<'a>> { pub f0: Z1789_1<'a, Read<'a, D2>, Option<Read<'a, D2, PanicHandler>>, Option<ReadExpect<'a, D2>>>, pub f1: Z1789_2<'a>, pub f2: U0, pub f3: U1, }
-shredh::zoo_case!(c1789, 1789, 'a, Z1789_0<'a, ReadExpect<'a, N3>, Z1789_3<'a>>);
-#[derive(SystemData)] pub struct Z1797_0<'a, U0: SystemData<'a>>(Option<Read<'a, D1, PanicHandler>>, U0);
-#[derive(SystemData)] pub struct Z1797_1<'a> { f0: PhantomData<&'a u8>, }
-shredh::zoo_case!(c1797, 1797, 'a, (WriteExpect<'a, D2>, Z1797_0<'a, Write<'a, D1, DefaultProvider>>, (Option<Write<'a, D1>>, Read<'a, D1, DefaultProvider>, Write<'a, D1, DefaultProvider>, Read<'a, D2, Hc<D1>>, ), Z1797_1<'a>, ));
-#[derive(SystemData)] pub struct Z1805_0<'a, T0>(pub Option<WriteExpect<'a, D0>>, pub PhantomData<str>, pub Option<Read<'a, T0, PanicHandler>>, pub Write<'a, D2, DefaultProvider>) where T0: Resource;
-#[derive(SystemData)] pub struct Z1805_1<'a> { f0: Option<Read<'a, D0, PanicHandler>>, f1: Write<'a, D2>, }
-shredh::zoo_case!(c1805, 1805, 'a, ((), (Z1805_0<'a, D0>, Z1805_1<'a>, Option<ReadExpect<'a, D2>>, ), ));
-#[derive(SystemData)] pub struct Z1813_2<'a, T0, T1, T2> where T0: Resource + ZRes, T1: Resource + ZRes, T2: Debug + Resource + Default { f0: Option<Read<'a, T0>>, f1: Read<'a, T1, PanicHandler>, f2: Option<WriteExpect<'a, D2>>, f3: Write<'a, T2, DefaultProvider>, }
-#[derive(SystemData)] pub struct Z1813_1<'a>(Z1813_2<'a, D2, D2, D3>);
-#[derive(SystemData)] pub struct Z1813_4<'a, U0: SystemData<'a>>(pub Option<Write<'a, D2>>, pub U0, pub Read<'a, D2>);
-#[derive(SystemData)] pub struct Z1813_5<'a>(pub Write<'a, D2>);
-#[derive(SystemData)] pub struct Z1813_3<'a>(pub Z1813_4<'a, Read<'a, D2, Hc<D3>>>, pub (Write<'a, D3>, Read<'a, D3, Hc<D2>>, ), pub Z1813_5<'a>);
-#[derive(SystemData)] pub struct Z1813_7<'a, U0: SystemData<'a>, U1: SystemData<'a>> { f0: Read<'a, D3, DefaultProvider>, f1: U0, f2: U1, f3: Write<'a, D3>, }
-#[derive(SystemData)] pub struct Z1813_6<'a>(Z1813_7<'a, PhantomData<D0>, Write<'a, D2>>, (Option<ReadExpect<'a, D2>>, Read<'a, D3, Hc<D2>>, PhantomData<str>, ));
-#[derive(SystemData)] pub struct Z1813_0<'a> { pub f0: Z1813_1<'a>, pub f1: Z1813_3<'a>, pub f2: Z1813_6<'a>, }
-shredh::zoo_case!(c1813, 1813, 'a, Z1813_0<'a>);
-#[derive(SystemData)] pub struct Z1821_1<'a>(ReadExpect<'a, D0>, ReadExpect<'a, D0>, Option<WriteExpect<'a, D0>>, Read<'a, D2, Hc<D0>>);
-#[derive(SystemData)] pub struct Z1821_0<'a> { f0: Z1821_1<'a>, }
-shredh::zoo_case!(c1821, 1821, 'a, Z1821_0<'a>);
-#[derive(SystemData)] pub struct Z1829_1<'a, T0>(pub Option<Read<'a, T0>>) where T0: Resource + ZRes;
-#[derive(SystemData)] pub struct Z1829_0<'a, U0: SystemData<'a>>(Z1829_1<'a, D3>, Read<'a, D0, Hc<D3>>, U0, Write<'a, D3>);
-shredh::zoo_case!(c1829, 1829, 'a, Z1829_0<'a, Read<'a, D1>>);
-#[derive(SystemData)] pub struct Z1837_0<'a> { pub f0: (Write<'a, D0, DefaultProvider>, Write<'a, D3, DefaultProvider>, ), }
-shredh::zoo_case!(c1837, 1837, 'a, Z1837_0<'a>);
-shredh::zoo_case!(c1845, 1845, 'a, ((Read<'a, D0>, ReadExpect<'a, D1>, Read<'a, D1, Hc<D2>>, ), ));
-#[derive(SystemData)] pub struct Z1853_0<'a, T0: Debug + Resource + for<'b> Hrtb<'b>> { f0: Read<'a, T0, Hc<D4>>, }
-#[derive(SystemData)] pub struct Z1853_2<'a>(PhantomData<&'a u8>);
-#[derive(SystemData)] pub struct Z1853_1<'a>(Z1853_2<'a>);
-#[derive(SystemData)] pub struct Z1853_4<'a, T0, T1>((), Option<Read<'a, T0>>, Write<'a, T1, PanicHandler>) where T0: Debug + Resource + for<'b> Hrtb<'b>, T1: Resource;
-#[derive(SystemData)] pub struct Z1853_3<'a, T0: Resource + ZRes, T1: Resource + ZRes>(Z1853_4<'a, D3, D3>, Option<WriteExpect<'a, T0>>, (Write<'a, D1, DefaultProvider>, PhantomData<str>, Option<WriteExpect<'a, D0>>, Option<WriteExpect<'a, D3>>, ), Write<'a, T1, PanicHandler>);
-shredh::zoo_case!(c1853, 1853, 'a, (Z1853_0<'a, D0>, Z1853_1<'a>, Z1853_3<'a, D3, D4>, ));
-#[derive(SystemData)] pub struct Z1861_0<'a, 'x>(PhantomData<&'x i64>, WriteExpect<'a, D0>);
-#[derive(SystemData)] pub struct Z1861_1<'a, T0: Debug + Resource> { pub f0: Read<'a, T0, Hc<D2>>, }
-#[derive(SystemData)] pub struct Z1861_2<'a, T0: Debug + Resource + for<'b> Hrtb<'b> + Default, U0>(pub Write<'a, T0>, pub U0, pub ()) where U0: SystemData<'a>;
-#[derive(SystemData)] pub struct Z1861_4<'a, T0: Resource + ZRes> { pub f0: Write<'a, T0, Hc<D2>>, pub f1: (), }
-#[derive(SystemData)] pub struct Z1861_5<'a, 'x> { pub f0: Read<'a, D1, PanicHandler>, pub f1: PhantomData<&'x i64>, pub f2: Write<'a, D0, Hc<D1>>, }
-#[derive(SystemData)] pub struct Z1861_3<'a, T0> where T0: Resource + ZRes { f0: Z1861_4<'a, D0>, f1: (WriteExpect<'a, D2>, Option<Read<'a, D2>>, Write<'a, D0, PanicHandler>, ), f2: Write<'a, T0, Hc<D2>>, f3: Z1861_5<'a, 'a>, }
-shredh::zoo_case!(c1861, 1861, 'a, ((Z1861_0<'a, 'static>, Z1861_1<'a, D1>, Z1861_2<'a, D0, ()>, ), Z1861_3<'a, D1>, ));
-#[derive(SystemData)] pub struct Z1869_1<'a, T0, T1> where T0: Resource, T1: Resource { f0: (), f1: Option<Write<'a, T0, PanicHandler>>, f2: Option<Read<'a, D1, PanicHandler>>, f3: Write<'a, T1>, }
-#[derive(SystemData)] pub struct Z1869_2<'a, T0: Debug + Resource + for<'b> Hrtb<'b>, T1: Debug + Resource, T2: Debug + Resource>(pub WriteExpect<'a, T0>, pub Write<'a, T1, DefaultProvider>, pub Read<'a, T2>);
-#[derive(SystemData)] pub struct Z1869_3<'a, 'x, T0> where T0: Resource + ZRes { pub f0: PhantomData<&'x i64>, pub f1: Read<'a, T0, Hc<D2>>, }
-#[derive(SystemData)] pub struct Z1869_0<'a, U0>(Z1869_1<'a, D1, D1>, Z1869_2<'a, D1, D2, D2>, U0, Z1869_3<'a, 'a, D1>) where U0: SystemData<'a>;
-shredh::zoo_case!(c1869, 1869, 'a, Z1869_0<'a, (Option<Write<'a, D1>>, )>);
-shredh::zoo_case!(c1877, 1877, 'a, (Write<'a, D11, Hc<D25>>, Option<Write<'a, N3>>, Read<'a, D10, DefaultProvider>, WriteExpect<'a, D14>, (), Option<Read<'a, D24>>, (), Option<Write<'a, N21>>, Write<'a, D8, Hc<D14>>, Read<'a, D25, DefaultProvider>, ));
-#[derive(SystemData)] pub struct Z1885_0<'a, T0: Debug + Resource + Default, T1: Resource + ZRes, T2: Debug + Resource> { f0: Write<'a, T0>, f1: Write<'a, T1, Hc<D2>>, f2: Option<ReadExpect<'a, T2>>, f3: Option<WriteExpect<'a, N24>>, f4: Option<Read<'a, D8>>, f5: ReadExpect<'a, D2>, f6: (), f7: PhantomData<dyn Send>, f8: Write<'a, D16, Hc<D6>>, f9: Option<ReadExpect<'a, D6>>, f10: Read<'a, D0>, f11: Option<Write<'a, N20>>, f12: Write<'a, D10>, }
-shredh::zoo_case!(c1885, 1885, 'a, Z1885_0<'a, D9, D22, D15>);
-#[derive(SystemData)] pub struct Z1893_0<'a, T0: Resource + ZRes, T1: Debug + Resource + for<'b> Hrtb<'b>, T2: Debug + Resource + for<'b> Hrtb<'b>>(pub Read<'a, T0, PanicHandler>, pub Write<'a, T1, PanicHandler>, pub Read<'a, T2, Hc<D0>>, pub PhantomData<(Write<'a, D1>,)>);
-shredh::zoo_case!(c1893, 1893, 'a, Z1893_0<'a, D0, N2, D1>);
-#[derive(SystemData)] pub struct Z1901_0<'a, T0: Debug + Resource + for<'b> Hrtb<'b>, T1: Resource + ZRes, T2: Debug + Resource + for<'b> Hrtb<'b>>(pub WriteExpect<'a, T0>, pub PhantomData<dyn Send>, pub Read<'a, T1, Hc<D16>>, pub Write<'a, D9>, pub Write<'a, T2, PanicHandler>, pub PhantomData<T0>, pub Write<'a, D15, DefaultProvider>, pub Read<'a, D7, Hc<D19>>, pub Write<'a, D20>, pub (), pub Read<'a, D21, Hc<D2>>, pub (), pub Read<'a, D25>, pub Read<'a, D14, PanicHandler>, pub PhantomData<D0>, pub Read<'a, D6, DefaultProvider>, pub PhantomData<fn() -> N2>, pub PhantomData<dyn Send>, pub ReadExpect<'a, D19>, pub PhantomData<[u32]>, pub Read<'a, D13, Hc<D23>>, pub (), pub Read<'a, D12, DefaultProvider>);
-shredh::zoo_case!(c1901, 1901, 'a, Z1901_0<'a, D8, D18, D23>);
-#[derive(SystemData)] pub struct Z1909_0<'a>((), Read<'a, D0, Hc<D2>>, Write<'a, D2, Hc<D1>>, Option<ReadExpect<'a, N5>>, Write<'a, N5, PanicHandler>, PhantomData<(Write<'a, D1>,)>, Option<Read<'a, N3, PanicHandler>>, Option<Write<'a, D1>>, (), (), ReadExpect<'a, D0>);
-shredh::zoo_case!(c1909, 1909, 'a, Z1909_0<'a>);
-#[derive(SystemData)] pub struct Z1917_1<'a, T0, T1: Resource> where T0: Resource + ZRes { pub f0: Option<ReadExpect<'a, T0>>, pub f1: Option<Read<'a, T1>>, }
-#[derive(SystemData)] pub struct Z1917_2<'a, T0, T1>(Read<'a, T0, DefaultProvider>, Read<'a, T1, PanicHandler>) where T0: Debug + Resource + Default, T1: Debug + Resource;
-#[derive(SystemData)] pub struct Z1917_3<'a>(WriteExpect<'a, D2>);
-#[derive(SystemData)] pub struct Z1917_0<'a, T0, T1, T2> where T0: Resource, T1: Resource, T2: Resource + ZRes { f0: Z1917_1<'a, D2, D3>, f1: Option<WriteExpect<'a, T0>>, f2: ReadExpect<'a, T1>, f3: Option<WriteExpect<'a, T2>>, f4: ReadExpect<'a, D0>, f5: Option<WriteExpect<'a, D0>>, f6: Write<'a, D0>, f7: Z1917_2<'a, D0, D2>, f8: Z1917_3<'a>, f9: WriteExpect<'a, D3>, f10: ((), PhantomData<dyn Send>, ), f11: (Read<'a, D0, Hc<D3>>, ), f12: ((), ), f13: (Write<'a, D0>, ), f14: (Option<WriteExpect<'a, D0>>, PhantomData<D0>, Write<'a, D2, Hc<D3>>, ), f15: Option<WriteExpect<'a, D2>>, f16: Read<'a, D3, Hc<D2>>, }
-shredh::zoo_case!(c1917, 1917, 'a, Z1917_0<'a, D2, D3, D2>);
-#[derive(SystemData)] pub struct Z1925_0<'a, U0, U1, U2>(U0, Read<'a, D0, DefaultProvider>, PhantomData<str>, PhantomData<D0>, Option<ReadExpect<'a, D0>>, U1, Read<'a, D2, DefaultProvider>, U2, Option<Read<'a, D0>>, Option<Read<'a, D2>>, PhantomData<str>, Read<'a, D0, PanicHandler>, Read<'a, D1, DefaultProvider>, Read<'a, D0, DefaultProvider>, Option<ReadExpect<'a, D1>>, Option<ReadExpect<'a, D0>>, PhantomData<str>, ()) where U0: SystemData<'a>, U1: SystemData<'a>, U2: SystemData<'a>;
-shredh::zoo_case!(c1925, 1925, 'a, Z1925_0<'a, (), (), ReadExpect<'a, D2>>);
-#[derive(SystemData)] pub struct Z1933_1<'a> { pub f0: Write<'a, D3, DefaultProvider>, }
-#[derive(SystemData)] pub struct Z1933_0<'a, 'x, T0: Debug + Resource + for<'b> Hrtb<'b>, T1: Resource, T2>(ReadExpect<'a, T0>, Write<'a, D3, PanicHandler>, Write<'a, T1, Hc<D3>>, Z1933_1<'a>, Option<Read<'a, T2>>, PhantomData<&'x i64>, Read<'a, D2, Hc<D6>>, Write<'a, D4, DefaultProvider>, Option<Write<'a, D1, PanicHandler>>, Option<Write<'a, D5>>, Read<'a, D5, PanicHandler>, Read<'a, D5, Hc<D6>>, Write<'a, D6, Hc<D1>>, Option<ReadExpect<'a, D3>>, PhantomData<D0>, Read<'a, D6, DefaultProvider>, (), Read<'a, D5, Hc<D4>>, Option<WriteExpect<'a, D2>>, Write<'a, D0, Hc<D3>>, ((), Write<'a, D4, Hc<D5>>, ), WriteExpect<'a, D1>, ReadExpect<'a, D4>, Option<Write<'a, D6, PanicHandler>>) where T2: Debug + Resource;
-shredh::zoo_case!(c1933, 1933, 'a, Z1933_0<'a, 'a, D1, D5, D6>);
-#[derive(SystemData)] pub struct Z1941_1<'a> { f0: Option<Write<'a, D7, PanicHandler>>, }
-#[derive(SystemData)] pub struct Z1941_2<'a, T0> where T0: Resource + ZRes { pub f0: Option<ReadExpect<'a, T0>>, pub f1: (), pub f2: Read<'a, D6, Hc<D4>>, }
-#[derive(SystemData)] pub struct Z1941_3<'a> { pub f0: Option<Write<'a, D2, PanicHandler>>, }
-#[derive(SystemData)] pub struct Z1941_4<'a, T0: Resource, U0, T1: Debug + Resource>(pub WriteExpect<'a, T0>, pub U0, pub WriteExpect<'a, T1>) where U0: SystemData<'a>;
-#[derive(SystemData)] pub struct Z1941_0<'a, T0, T1, T2>(Z1941_1<'a>, (Read<'a, D7>, ), ((), Read<'a, D2, Hc<D5>>, ), WriteExpect<'a, T0>, Z1941_2<'a, N1>, Read<'a, T1>, Z1941_3<'a>, Z1941_4<'a, N1, WriteExpect<'a, D2>, N1>, Option<Read<'a, T2>>, Option<Write<'a, D2>>, (Option<WriteExpect<'a, D7>>, )) where T0: Resource + ZRes, T1: Resource + ZRes, T2: Resource + ZRes;
-shredh::zoo_case!(c1941, 1941, 'a, Z1941_0<'a, D2, D6, D5>);
-#[derive(SystemData)] pub struct Z1949_0<'a, U0, U1: SystemData<'a>, U2, T0: Resource + ZRes, T1: Debug + Resource, T2: Debug + Resource> where U0: SystemData<'a>, U2: SystemData<'a> { f0: U0, f1: U1, f2: U2, f3: (), f4: Read<'a, T0, Hc<D14>>, f5: Read<'a, D25, Hc<D22>>, f6: PhantomData<T0>, f7: Read<'a, D14>, f8: PhantomData<[u32]>, f9: Read<'a, D19, Hc<D2>>, f10: Option<Read<'a, T1>>, f11: WriteExpect<'a, T2>, f12: WriteExpect<'a, N24>, f13: Write<'a, D6>, f14: PhantomData<T0>, f15: (), }
-shredh::zoo_case!(c1949, 1949, 'a, Z1949_0<'a, (), Read<'a, D4, DefaultProvider>, Option<Read<'a, N9>>, D8, D2, D17>);
-shredh::zoo_case!(c1957, 1957, 'a, (Write<'a, D3>, Read<'a, D1, DefaultProvider>, Read<'a, D2, Hc<D1>>, Write<'a, D5, Hc<D0>>, Write<'a, D0>, (), Read<'a, D4, DefaultProvider>, ));
-shredh::zoo_case!(c1965, 1965, 'a, (Option<Read<'a, D18, PanicHandler>>, (), Read<'a, D0, DefaultProvider>, Write<'a, D6>, Option<Read<'a, D9, PanicHandler>>, Write<'a, D1, Hc<D11>>, Read<'a, D11, PanicHandler>, Option<Read<'a, D17>>, PhantomData<[u32]>, WriteExpect<'a, N3>, Write<'a, D10, Hc<D22>>, Read<'a, D15, Hc<D9>>, Write<'a, D20, PanicHandler>, PhantomData<(Write<'a, D1>,)>, PhantomData<&'a u8>, Read<'a, D25, DefaultProvider>, Read<'a, D22>, Option<Write<'a, N8>>, (), ReadExpect<'a, N5>, Write<'a, D13>, Write<'a, N23, PanicHandler>, ));
-shredh::zoo_case!(c1973, 1973, 'a, (PhantomData<dyn Send>, Option<WriteExpect<'a, N1>>, Write<'a, D3>, Write<'a, D0, Hc<D2>>, ReadExpect<'a, D0>, (), Option<Read<'a, D3, PanicHandler>>, Read<'a, D3, Hc<D0>>, ));
-#[derive(SystemData)] pub struct Z1981_0<'a, T0: Resource + ZRes, T1: Debug + Resource + for<'b> Hrtb<'b>, T2: Debug + Resource + for<'b> Hrtb<'b>>(Write<'a, T0, Hc<D13>>, Read<'a, D18, DefaultProvider>, WriteExpect<'a, T1>, ReadExpect<'a, D7>, ReadExpect<'a, D25>, Write<'a, D15, Hc<D8>>, WriteExpect<'a, T2>, (), (), Write<'a, D14, PanicHandler>, Write<'a, D21, DefaultProvider>, Write<'a, D23>, ReadExpect<'a, D8>, WriteExpect<'a, D13>, ReadExpect<'a, N19>, Read<'a, D9>, Read<'a, D12>, Read<'a, D24, DefaultProvider>);
-shredh::zoo_case!(c1981, 1981, 'a, Z1981_0<'a, D0, N17, N5>);
-#[derive(SystemData)] pub struct Z1989_1<'a>(pub (), pub Write<'a, D1, DefaultProvider>);
-#[derive(SystemData)] pub struct Z1989_0<'a, T0: Debug + Resource + for<'b> Hrtb<'b>, T1: Resource + ZRes, T2: Resource + ZRes> { pub f0: Read<'a, T0, PanicHandler>, pub f1: (Write<'a, D3, DefaultProvider>, ), pub f2: (Read<'a, D4, Hc<D2>>, ), pub f3: (Write<'a, D2, PanicHandler>, ), pub f4: Read<'a, T1, Hc<D3>>, pub f5: Write<'a, T2, Hc<D1>>, pub f6: Z1989_1<'a>, pub f7: (), pub f8: Read<'a, D6, Hc<D2>>, pub f9: Read<'a, D1, Hc<D2>>, pub f10: Write<'a, N0, PanicHandler>, pub f11: Option<WriteExpect<'a, D2>>, pub f12: ((), (), ), pub f13: (WriteExpect<'a, D6>, PhantomData<&'a u8>, ), }
-shredh::zoo_case!(c1989, 1989, 'a, Z1989_0<'a, N0, D2, D6>);
-#[derive(SystemData)] pub struct Z1997_0<'a, 'x, T0: Debug + Resource, T1, T2: Debug + Resource + for<'b> Hrtb<'b> + Default>(pub PhantomData<&'x i64>, pub (), pub PhantomData<(Write<'a, D1>,)>, pub Option<ReadExpect<'a, T0>>, pub PhantomData<D0>, pub (), pub (), pub (), pub Read<'a, D1, PanicHandler>, pub PhantomData<str>, pub PhantomData<str>, pub Read<'a, D1, PanicHandler>, pub Option<Read<'a, T1>>, pub PhantomData<(Write<'a, D1>,)>, pub Read<'a, T2>, pub Read<'a, D1>, pub Read<'a, D2, DefaultProvider>, pub PhantomData<str>, pub Read<'a, D1, PanicHandler>, pub Option<Read<'a, D2, PanicHandler>>) where T1: Debug + Resource;
-shredh::zoo_case!(c1997, 1997, 'a, Z1997_0<'a, 'static, D2, D2, D2>);
-#[derive(SystemData)] pub struct Z2005_0<'a> { f0: WriteExpect<'a, D6>, }
-#[derive(SystemData)] pub struct Z2005_1<'a> { pub f0: Write<'a, D3, Hc<D0>>, pub f1: Read<'a, D0, PanicHandler>, }
-#[derive(SystemData)] pub struct Z2005_2<'a, T0: Resource + ZRes + Default, U0>(Read<'a, T0>, U0) where U0: SystemData<'a>;
-shredh::zoo_case!(c2005, 2005, 'a, (Write<'a, D2, PanicHandler>, Z2005_0<'a>, Read<'a, D6>, Z2005_1<'a>, Option<Write<'a, N7>>, PhantomData<D0>, (), Option<Write<'a, N5>>, (Write<'a, D3, DefaultProvider>, ), Read<'a, D3, PanicHandler>, Z2005_2<'a, D6, ()>, WriteExpect<'a, D0>, ));
-#[derive(SystemData)] pub struct Z2013_0<'a, 'x> { f0: Read<'a, D18>, f1: PhantomData<&'x i64>, f2: Write<'a, D10, PanicHandler>, f3: Option<Read<'a, D22>>, f4: PhantomData<(Write<'a, D1>,)>, f5: PhantomData<D0>, f6: Read<'a, D12>, f7: ReadExpect<'a, N21>, f8: Read<'a, D4, Hc<D12>>, f9: Write<'a, D13, Hc<D10>>, f10: Option<Read<'a, N0>>, f11: Write<'a, D17, Hc<D4>>, f12: (), f13: ReadExpect<'a, D23>, f14: (), }
-shredh::zoo_case!(c2013, 2013, 'a, Z2013_0<'a, 'a>);
-#[derive(SystemData)] pub struct Z2021_0<'a, T0: Resource, T1: Debug + Resource + for<'b> Hrtb<'b>>((), (), Option<Read<'a, N1, PanicHandler>>, Option<Read<'a, T0>>, Option<Read<'a, T1>>);
-shredh::zoo_case!(c2021, 2021, 'a, Z2021_0<'a, D0, N2>);
-#[derive(SystemData)] pub struct Z2029_0<'a, 'x> { pub f0: PhantomData<&'x i64>, pub f1: PhantomData<fn() -> N2>, pub f2: Read<'a, D0>, pub f3: Write<'a, D0, Hc<D3>>, pub f4: Read<'a, D3, DefaultProvider>, pub f5: Write<'a, D1, DefaultProvider>, pub f6: Read<'a, D0, Hc<D3>>, pub f7: Read<'a, D1, Hc<D3>>, pub f8: Option<ReadExpect<'a, D1>>, pub f9: Read<'a, D3, Hc<D0>>, pub f10: (), pub f11: ReadExpect<'a, D3>, pub f12: Read<'a, D1, Hc<D3>>, pub f13: Write<'a, D3, DefaultProvider>, pub f14: Write<'a, D3, DefaultProvider>, pub f15: (), pub f16: WriteExpect<'a, D3>, pub f17: Read<'a, D0>, pub f18: Read<'a, D3>, pub f19: Read<'a, D3, DefaultProvider>, }
-shredh::zoo_case!(c2029, 2029, 'a, Z2029_0<'a, 'a>);
-#[derive(SystemData)] pub struct Z2037_0<'a> { pub f0: Write<'a, D0, DefaultProvider>, pub f1: Write<'a, D1, DefaultProvider>, pub f2: Read<'a, D2, PanicHandler>, pub f3: Read<'a, D0, Hc<D2>>, pub f4: Read<'a, D0, Hc<D1>>, pub f5: Read<'a, D2, Hc<D1>>, pub f6: Write<'a, D1, Hc<D2>>, pub f7: Option<Read<'a, D1>>, pub f8: Write<'a, D1, Hc<D0>>, pub f9: (), pub f10: Write<'a, D0, Hc<D1>>, pub f11: Option<ReadExpect<'a, D2>>, pub f12: Read<'a, D1, DefaultProvider>, pub f13: PhantomData<fn() -> N2>, pub f14: Option<Write<'a, D2, PanicHandler>>, pub f15: Write<'a, D0, Hc<D2>>, pub f16: Read<'a, D2, Hc<D0>>, pub f17: Option<Read<'a, D2>>, pub f18: Read<'a, D1, DefaultProvider>, pub f19: Read<'a, D0, Hc<D1>>, pub f20: WriteExpect<'a, D2>, pub f21: Write<'a, D2, DefaultProvider>, pub f22: WriteExpect<'a, D0>, pub f23: PhantomData<fn() -> N2>, pub f24: PhantomData<(Write<'a, D1>,)>, }
-shredh::zoo_case!(c2037, 2037, 'a, Z2037_0<'a>);
-shredh::zoo_case!(c2045, 2045, 'a, (PhantomData<fn() -> N2>, Read<'a, D2>, PhantomData<fn() -> N2>, ReadExpect<'a, D3>, Read<'a, D3>, Read<'a, D2>, Read<'a, D3, PanicHandler>, ReadExpect<'a, D2>, (), Read<'a, D3, PanicHandler>, (), ));
-#[derive(SystemData)] pub struct Z2053_0<'a, U0: SystemData<'a>, U1: SystemData<'a>, U2: SystemData<'a>>(pub U0, pub PhantomData<(Write<'a, D1>,)>, pub Option<Write<'a, D2, PanicHandler>>, pub U1, pub Write<'a, D3, PanicHandler>, pub U2, pub PhantomData<[u32]>, pub Write<'a, D1, Hc<D2>>, pub Option<Read<'a, D1>>, pub Option<ReadExpect<'a, D2>>, pub Option<WriteExpect<'a, D1>>, pub PhantomData<dyn Send>, pub WriteExpect<'a, D3>, pub ());
-shredh::zoo_case!(c2053, 2053, 'a, Z2053_0<'a, Option<Read<'a, D2, PanicHandler>>, Option<Write<'a, D1>>, Read<'a, D3, PanicHandler>>);
-shredh::zoo_case!(c2061, 2061, 'a, (PhantomData<[u32]>, (), Write<'a, D1>, Option<ReadExpect<'a, D2>>, ));
-#[derive(SystemData)] pub struct Z2069_1<'a>(Read<'a, D0, Hc<D6>>);
-#[derive(SystemData)] pub struct Z2069_2<'a> { pub f0: Read<'a, D4, DefaultProvider>, pub f1: ReadExpect<'a, D0>, pub f2: Read<'a, D3, Hc<D4>>, }
-#[derive(SystemData)] pub struct Z2069_0<'a, 'x> { pub f0: Write<'a, D4, DefaultProvider>, pub f1: Read<'a, D6, Hc<D2>>, pub f2: Write<'a, D6, PanicHandler>, pub f3: Read<'a, D3, DefaultProvider>, pub f4: Z2069_1<'a>, pub f5: Read<'a, D0>, pub f6: PhantomData<&'x i64>, pub f7: Z2069_2<'a>, pub f8: (), }
-shredh::zoo_case!(c2069, 2069, 'a, Z2069_0<'a, 'static>);
-#[derive(SystemData)] pub struct Z2077_0<'a>(pub Write<'a, N3, PanicHandler>, pub (), pub Option<Read<'a, N5, PanicHandler>>, pub Option<Read<'a, N6, PanicHandler>>, pub Write<'a, D4>, pub ReadExpect<'a, D1>, pub Option<ReadExpect<'a, D2>>);
-shredh::zoo_case!(c2077, 2077, 'a, Z2077_0<'a>);
-#[derive(SystemData)] pub struct Z2085_0<'a, T0: Debug + Resource + for<'b> Hrtb<'b>, T1: Debug + Resource, U0, U1: SystemData<'a>, T2: Resource, U2>(pub Read<'a, T0, DefaultProvider>, pub Option<ReadExpect<'a, T1>>, pub U0, pub Option<ReadExpect<'a, D1>>, pub U1, pub Read<'a, T2, Hc<D2>>, pub U2, pub Write<'a, D2, DefaultProvider>, pub Read<'a, D3>, pub Option<ReadExpect<'a, D2>>, pub Read<'a, D3, Hc<D2>>, pub Read<'a, D1, Hc<D3>>, pub Write<'a, D1, Hc<D3>>, pub Read<'a, D1, DefaultProvider>, pub ReadExpect<'a, D2>, pub PhantomData<str>, pub PhantomData<D0>, pub (), pub Option<Write<'a, D3>>, pub Read<'a, D1, DefaultProvider>) where U0: SystemData<'a>, U2: SystemData<'a>;
-shredh::zoo_case!(c2085, 2085, 'a, Z2085_0<'a, D2, D2, (), PhantomData<dyn Send>, D1, Read<'a, D2, Hc<D3>>>);
-pub static CASES: &[&shredh::zoo::Ops] = &[
-    &c5::OPS,
-    &c13::OPS,
-    &c21::OPS,
-    &c29::OPS,
-    &c37::OPS,
-    &c45::OPS,
-    &c53::OPS,
-    &c61::OPS,
-    &c69::OPS,
-    &c77::OPS,
-    &c85::OPS,
-    &c93::OPS,
-    &c101::OPS,
-    &c109::OPS,
-    &c117::OPS,
-    &c125::OPS,
-    &c133::OPS,
-    &c141::OPS,
-    &c149::OPS,
-    &c157::OPS,
-    &c165::OPS,
-    &c173::OPS,
-    &c181::OPS,
-    &c189::OPS,
-    &c197::OPS,
-    &c205::OPS,
-    &c213::OPS,
-    &c221::OPS,
-    &c229::OPS,
-    &c237::OPS,
-    &c245::OPS,
-    &c253::OPS,
-    &c261::OPS,
-    &c269::OPS,
-    &c277::OPS,
-    &c285::OPS,
-    &c293::OPS,
-    &c301::OPS,
-    &c309::OPS,
-    &c317::OPS,
-    &c325::OPS,
-    &c333::OPS,
-    &c341::OPS,
-    &c349::OPS,
-    &c357::OPS,
-    &c365::OPS,
-    &c373::OPS,
-    &c381::OPS,
-    &c389::OPS,
-    &c397::OPS,
-    &c405::OPS,
-    &c413::OPS,
-    &c421::OPS,
-    &c429::OPS,
-    &c437::OPS,
-    &c445::OPS,
-    &c453::OPS,
-    &c461::OPS,
-    &c469::OPS,
-    &c477::OPS,
-    &c485::OPS,
-    &c493::OPS,
-    &c501::OPS,
-    &c509::OPS,
-    &c517::OPS,
-    &c525::OPS,
-    &c533::OPS,
-    &c541::OPS,
-    &c549::OPS,
-    &c557::OPS,
-    &c565::OPS,
-    &c573::OPS,
-    &c581::OPS,
-    &c589::OPS,
-    &c597::OPS,
-    &c605::OPS,
-    &c613::OPS,
-    &c621::OPS,
-    &c629::OPS,
-    &c637::OPS,
-    &c645::OPS,
-    &c653::OPS,
-    &c661::OPS,
-    &c669::OPS,
-    &c677::OPS,
-    &c685::OPS,
-    &c693::OPS,
-    &c701::OPS,
-    &c709::OPS,
-    &c717::OPS,
-    &c725::OPS,
-    &c733::OPS,
-    &c741::OPS,
-    &c749::OPS,
-    &c757::OPS,
-    &c765::OPS,
-    &c773::OPS,
-    &c781::OPS,
-    &c789::OPS,
-    &c797::OPS,
-    &c805::OPS,
-    &c813::OPS,
-    &c821::OPS,
-    &c829::OPS,
-    &c837::OPS,
-    &c845::OPS,
-    &c853::OPS,
-    &c861::OPS,
-    &c869::OPS,
-    &c877::OPS,
-    &c885::OPS,
-    &c893::OPS,
-    &c901::OPS,
-    &c909::OPS,
-    &c917::OPS,
-    &c925::OPS,
-    &c933::OPS,
-    &c941::OPS,
-    &c949::OPS,
-    &c957::OPS,
-    &c965::OPS,
-    &c973::OPS,
-    &c981::OPS,
-    &c989::OPS,
-    &c997::OPS,
-    &c1005::OPS,
-    &c1013::OPS,
-    &c1021::OPS,
-    &c1029::OPS,
-    &c1037::OPS,
-    &c1045::OPS,
-    &c1053::OPS,
-    &c1061::OPS,
-    &c1069::OPS,
-    &c1077::OPS,
-    &c1085::OPS,
-    &c1093::OPS,
-    &c1101::OPS,
-    &c1109::OPS,
-    &c1117::OPS,
-    &c1125::OPS,
-    &c1133::OPS,
-    &c1141::OPS,
-    &c1149::OPS,
-    &c1157::OPS,
-    &c1165::OPS,
-    &c1173::OPS,
-    &c1181::OPS,
-    &c1189::OPS,
-    &c1197::OPS,
-    &c1205::OPS,
-    &c1213::OPS,
-    &c1221::OPS,
-    &c1229::OPS,
-    &c1237::OPS,
-    &c1245::OPS,
-    &c1253::OPS,
-    &c1261::OPS,
-    &c1269::OPS,
-    &c1277::OPS,
-    &c1285::OPS,
-    &c1293::OPS,
-    &c1301::OPS,
-    &c1309::OPS,
-    &c1317::OPS,
-    &c1325::OPS,
-    &c1333::OPS,
-    &c1341::OPS,
-    &c1349::OPS,
-    &c1357::OPS,
-    &c1365::OPS,
-    &c1373::OPS,
-    &c1381::OPS,
-    &c1389::OPS,
-    &c1397::OPS,
-    &c1405::OPS,
-    &c1413::OPS,
-    &c1421::OPS,
-    &c1429::OPS,
-    &c1437::OPS,
-    &c1445::OPS,
-    &c1453::OPS,
-    &c1461::OPS,
-    &c1469::OPS,
-    &c1477::OPS,
-    &c1485::OPS,
-    &c1493::OPS,
-    &c1501::OPS,
-    &c1509::OPS,
-    &c1517::OPS,
-    &c1525::OPS,
-    &c1533::OPS,
-    &c1541::OPS,
-    &c1549::OPS,
-    &c1557::OPS,
-    &c1565::OPS,
-    &c1573::OPS,
-    &c1581::OPS,
-    &c1589::OPS,
-    &c1597::OPS,
-    &c1605::OPS,
-    &c1613::OPS,
-    &c1621::OPS,
-    &c1629::OPS,
-    &c1637::OPS,
-    &c1645::OPS,
-    &c1653::OPS,
-    &c1661::OPS,
-    &c1669::OPS,
-    &c1677::OPS,
-    &c1685::OPS,
-    &c1693::OPS,
-    &c1701::OPS,
-    &c1709::OPS,
-    &c1717::OPS,
-    &c1725::OPS,
-    &c1733::OPS,
-    &c1741::OPS,
-    &c1749::OPS,
-    &c1757::OPS,
-    &c1765::OPS,
-    &c1773::OPS,
-    &c1781::OPS,
-    &c1789::OPS,
-    &c1797::OPS,
-    &c1805::OPS,
-    &c1813::OPS,
-    &c1821::OPS,
-    &c1829::OPS,
-    &c1837::OPS,
-    &c1845::OPS,
-    &c1853::OPS,
-    &c1861::OPS,
-    &c1869::OPS,
-    &c1877::OPS,
-    &c1885::OPS,
-    &c1893::OPS,
-    &c1901::OPS,
-    &c1909::OPS,
-    &c1917::OPS,
-    &c1925::OPS,
-    &c1933::OPS,
-    &c1941::OPS,
-    &c1949::OPS,
-    &c1957::OPS,
-    &c1965::OPS,
-    &c1973::OPS,
-    &c1981::OPS,
-    &c1989::OPS,
-    &c1997::OPS,
-    &c2005::OPS,
-    &c2013::OPS,
-    &c2021::OPS,
-    &c2029::OPS,
-    &c2037::OPS,
-    &c2045::OPS,
-    &c2053::OPS,
-    &c2061::OPS,
-    &c2069::OPS,
-    &c2077::OPS,
-    &c2085::OPS,
-];
+// placeholder written by harness/gen/zoo.py (the real file is a build artefact of bin/check C06)
+pub const GEN_HASH: &str = "placeholder";
+pub static CASES: &[&shredh::zoo::Ops] = &[];
